@@ -7,6 +7,8 @@ import (
 	"go/types"
 	"strings"
 
+	"golang.org/x/tools/go/cfg"
+
 	"verif/sa/core"
 )
 
@@ -77,8 +79,86 @@ func metricFieldWrites(f *core.Func) map[string][]ast.Node {
 	return out
 }
 
+// mxSpliceInfo describes a statement that shortens a metric's label-value slice.
+type mxSpliceInfo struct {
+	stmt       *ast.AssignStmt
+	recognised bool     // the right-hand side is append(s[:a], s[b:]...) or slices.Delete(s, a, b) on the assigned slice itself
+	a, b       ast.Expr // bounds (a may be nil only when not recognised)
+}
+
+// mxSplices lists the statements of f that assign a shortened slice to a Metric's LabelValues.
+func mxSplices(f *core.Func) []mxSpliceInfo {
+	isLV := lvAliases(f)
+	var out []mxSpliceInfo
+	core.InspectNoLit(f.Body, func(n ast.Node) bool {
+		as, ok := n.(*ast.AssignStmt)
+		if !ok || len(as.Lhs) != 1 || len(as.Rhs) != 1 || !isLV(as.Lhs[0]) {
+			return true
+		}
+		lhs := mxCanon(f, as.Lhs[0], as)
+		rhs := core.Unparen(as.Rhs[0])
+		if _, isSlice := rhs.(*ast.SliceExpr); isSlice {
+			out = append(out, mxSpliceInfo{stmt: as})
+			return true
+		}
+		call, ok := rhs.(*ast.CallExpr)
+		if !ok {
+			return true
+		}
+		switch f.CalleeID(call) {
+		case "builtin.append":
+			if len(call.Args) == 0 {
+				return true
+			}
+			s0, ok0 := core.Unparen(call.Args[0]).(*ast.SliceExpr)
+			if !ok0 {
+				return true
+			}
+			sp := mxSpliceInfo{stmt: as}
+			if len(call.Args) == 2 && call.Ellipsis.IsValid() {
+				if s1, ok1 := core.Unparen(call.Args[1]).(*ast.SliceExpr); ok1 {
+					lowZero := s0.Low == nil
+					if v, ok := mxConstInt(f, s0.Low); s0.Low != nil && ok && v == 0 {
+						lowZero = true
+					}
+					if lowZero && s0.High != nil && s1.Low != nil && s1.High == nil && !s0.Slice3 && !s1.Slice3 &&
+						mxCanon(f, s0.X, as) == lhs && mxCanon(f, s1.X, as) == lhs {
+						sp.recognised, sp.a, sp.b = true, s0.High, s1.Low
+					}
+				}
+			}
+			out = append(out, sp)
+		case "slices.Delete":
+			sp := mxSpliceInfo{stmt: as}
+			if len(call.Args) == 3 && mxCanon(f, call.Args[0], as) == lhs {
+				sp.recognised, sp.a, sp.b = true, call.Args[1], call.Args[2]
+			}
+			out = append(out, sp)
+		}
+		return true
+	})
+	return out
+}
+
+// mxIsSucc reports whether b denotes a+1.
+func mxIsSucc(f *core.Func, a, b ast.Expr, at ast.Node) bool {
+	be, ok := mxResolveAt(f, b, at).(*ast.BinaryExpr)
+	if !ok || be.Op != token.ADD {
+		return false
+	}
+	ca := mxCanon(f, a, at)
+	if v, ok := mxConstInt(f, be.Y); ok && v == 1 && mxCanon(f, be.X, at) == ca {
+		return true
+	}
+	if v, ok := mxConstInt(f, be.X); ok && v == 1 && mxCanon(f, be.Y, at) == ca {
+		return true
+	}
+	return false
+}
+
 func c09(c *core.Check) {
-	c.Explain = "A metric keeps its label sets twice — the insertion-ordered slice LabelValues and the lookup map labelValuesMap.  This check decides, on every path of the current source, the structural conditions under which the pair behaves as one insertion-ordered map: (R1) every Metric field that can hold a LabelValue is written by both the insertion and the removal primitive, and within each primitive slice and map updates strictly alternate; (R2) every insertion is preceded by a failed lookup of the same tuple under the metric's lock, or by a removal of the same tuple; (R3) removing an absent tuple reaches `return nil` without any write, marking expiry on an absent tuple returns an error, wrong-length tuples are rejected first (shared with C08-R3); (R4) enumeration sends exactly one label set per element of the slice, built from that element's own labels and value, then closes; (R5) removal splices exactly the found element and stops; the slice is never sorted or reordered in place.  Values and timestamps inside data are not decided."
+	mxInlineProg = c.Prog
+	c.Explain = "A metric keeps its label sets twice — the insertion-ordered slice LabelValues and the lookup map labelValuesMap.  This check decides, on every path of the current source, the structural conditions under which the pair behaves as one insertion-ordered map: (R1) every Metric field that can hold a LabelValue is written by both the insertion and the removal primitive, and within each primitive slice and map updates come in pairs; (R2) every insertion is preceded by a failed lookup of the same tuple under the metric's lock, or by a removal of the same tuple; (R3) removing an absent tuple reaches `return nil` without any write, marking expiry on an absent tuple returns an error, wrong-length tuples are rejected first (shared with C08-R3); (R4) enumeration sends exactly one label set per element of the slice, built from that element's own labels and value, then closes; (R5) removal splices exactly the found element and stops; the slice is never sorted or reordered in place.  Conditions are read off the control-flow graph's condition edges and variables are followed to their definitions, so if/else, early-return, switch and negated forms, either operand order, renamed variables and extracted helpers are the same to the rules.  Values and timestamps inside data are not decided."
 	c.Assume = append(c.Assume, "callers hold the metric's lock as decided under C11")
 	app := c.MustFn("C09-R1", mAppend)
 	remAPI := c.MustFn("C09-R1", mRemove)
@@ -94,8 +174,16 @@ func c09(c *core.Check) {
 	}
 	c.Analysed(rem)
 	c.Extra["removal_primitive"] = rem.Key
+	// the insertion primitive likewise
+	appPrim := findInClosure(app, mxAppendsLabelValues)
+	if appPrim == nil {
+		c.Undecided("C09-R1", mAppend+"|append", pos(c, app.Decl), "no function reachable from AppendLabelValue appends to the label-value slice: insertion primitive not recognised")
+		return
+	}
+	c.Analysed(appPrim)
+	c.Extra["insertion_primitive"] = appPrim.Key
 	keyInjective(c, "C09-R0") // a map from tuples needs distinct tuples to have distinct keys (shared with C08-R1)
-	c.Rule("C09-R1", "PAIRED: the Metric fields whose type mentions LabelValue are each written in RemoveDatum if they are written on insertion (AppendLabelValue/GetDatum); in AppendLabelValue the slice append and the map store alternate on every path; in RemoveDatum the splice and the map delete alternate")
+	c.Rule("C09-R1", "PAIRED: the Metric fields whose type mentions LabelValue are each written in RemoveDatum if they are written on insertion (AppendLabelValue/GetDatum); in AppendLabelValue the slice append and the map store come as one pair on every path (either order, directly or through a helper); in RemoveDatum the splice and the map delete likewise")
 	if pkg := c.Prog.Pkgs["internal/metrics"]; pkg != nil {
 		st, _ := pkg.Types.Scope().Lookup("Metric").Type().Underlying().(*types.Struct)
 		insW := mergedFieldWrites(app)
@@ -115,55 +203,135 @@ func c09(c *core.Check) {
 		}
 	}
 	{
-		g := app.Graph()
-		apps := g.Find(func(n ast.Node) bool {
-			as, ok := n.(*ast.AssignStmt)
-			return ok && len(as.Lhs) == 1 && strings.HasSuffix(core.PathOf(as.Lhs[0]), ".LabelValues") && strings.HasPrefix(nospace(exprStr(as.Rhs[0])), "append(")
-		})
-		stores := mapStores(g, ".labelValuesMap")
-		msg, tr, ok := pairedEvents(g, core.HitPoints(apps), core.HitPoints(stores))
-		c.Verdict(ok && len(apps) == 1 && len(stores) == 1, "C09-R1", mAppend+"|append/store", pos(c, app.Decl), "slice append and map store paired", "insertion updates the slice and the map inconsistently: "+msg, tr...)
+		g := appPrim.Graph()
+		var apps []ast.Node
+		for _, as := range mxAppendStmts(appPrim) {
+			apps = append(apps, as)
+		}
+		stores := mxMapWrites(appPrim, false)
+		storers := mxMapWriters(c, false)
+		for _, h := range g.Calls(func(id string, call *ast.CallExpr) bool {
+			cf := appPrim.CalleeFunc(call)
+			return cf != nil && cf != appPrim && storers[cf] && !mxAppendsLabelValues(cf)
+		}) {
+			stores = append(stores, h.N)
+		}
+		msg, tr, ok := mxPairedEitherOrder(g, mxPoints(g, apps), mxPoints(g, stores))
+		c.Verdict(ok, "C09-R1", mAppend+"|append/store", pos(c, appPrim.Decl), "slice append and map store paired", "insertion updates the slice and the map inconsistently: "+msg, tr...)
 	}
+	splices := mxSplices(rem)
 	{
 		g := rem.Graph()
-		splices := g.Find(func(n ast.Node) bool {
-			as, ok := n.(*ast.AssignStmt)
-			return ok && len(as.Lhs) == 1 && strings.HasSuffix(core.PathOf(as.Lhs[0]), ".LabelValues")
-		})
-		dels := g.Calls(func(id string, call *ast.CallExpr) bool {
-			return id == "builtin.delete" && strings.HasSuffix(core.PathOf(call.Args[0]), ".labelValuesMap")
-		})
-		msg, tr, ok := pairedEvents(g, core.HitPoints(splices), core.HitPoints(dels))
-		c.Verdict(ok && len(splices) == 1 && len(dels) == 1, "C09-R1", mRemove+"|splice/delete", pos(c, rem.Decl), "slice splice and map delete paired", "removal updates the slice and the map inconsistently: "+msg, tr...)
-
-		c.Rule("C09-R5", "SPLICE: the removal is `s = append(s[:i], s[i+1:]...)` with s the metric's slice and i the index whose element was compared equal to the looked-up value, and the loop is left right after; no sort.* call receives the metric's slice or an alias of it")
+		var spl []ast.Node
 		for _, sp := range splices {
-			as := sp.N.(*ast.AssignStmt)
-			okShape := false
-			if call, ok := core.Unparen(as.Rhs[0]).(*ast.CallExpr); ok && rem.CalleeID(call) == "builtin.append" && len(call.Args) == 2 && call.Ellipsis.IsValid() {
-				s0, ok0 := core.Unparen(call.Args[0]).(*ast.SliceExpr)
-				s1, ok1 := core.Unparen(call.Args[1]).(*ast.SliceExpr)
-				if ok0 && ok1 {
-					lhs := exprStr(as.Lhs[0])
-					i0 := ""
-					if s0.High != nil {
-						i0 = exprStr(s0.High)
+			spl = append(spl, sp.stmt)
+		}
+		dels := mxMapWrites(rem, true)
+		deleters := mxMapWriters(c, true)
+		for _, h := range g.Calls(func(id string, call *ast.CallExpr) bool {
+			cf := rem.CalleeFunc(call)
+			return cf != nil && cf != rem && deleters[cf] && !splicesLabelValues(cf)
+		}) {
+			dels = append(dels, h.N)
+		}
+		msg, tr, ok := mxPairedEitherOrder(g, mxPoints(g, spl), mxPoints(g, dels))
+		c.Verdict(ok, "C09-R1", mRemove+"|splice/delete", pos(c, rem.Decl), "slice splice and map delete paired", "removal updates the slice and the map inconsistently: "+msg, tr...)
+
+		c.Rule("C09-R5", "SPLICE: the removal is `s = append(s[:i], s[i+1:]...)` (or slices.Delete(s, i, i+1)) with s the metric's slice and i the index whose element was compared equal to the looked-up value on every path to the splice, and the loop is left right after; no sort.* call receives the metric's slice or an alias of it")
+		loops := mxLoops(rem)
+		for _, sp := range splices {
+			as := sp.stmt
+			key := mRemove + "|splice shape"
+			p, _ := g.PointOf(as)
+			// leaves the loop: no path from the splice back to itself
+			from := p
+			_, again := pathAvoiding(g, &from, []core.Point{p}, nil)
+			if again {
+				c.Fail("C09-R5", key, pos(c, as), "the removal keeps scanning after removing: the elements behind the removed one have moved down one slot, so another tuple's entry is skipped or dropped and the slice is corrupted")
+				continue
+			}
+			if !sp.recognised {
+				c.Undecided("C09-R5", key, pos(c, as), "the statement shortening the slice is not append(s[:i], s[i+1:]...) / slices.Delete(s, i, i+1) on the metric's own slice: which element it removes is not recognised")
+				continue
+			}
+			if !mxIsSucc(rem, sp.a, sp.b, as) {
+				c.Fail("C09-R5", key, pos(c, as), fmt.Sprintf("the removal does not splice out exactly the element that was found: it drops the elements [%s, %s) — another tuple's entry is dropped or a removed one is kept", exprStr(sp.a), exprStr(sp.b)))
+				continue
+			}
+			// the element at index a was compared equal to the looked-up value on every path to the splice
+			idx := identObj(rem.Info(), mxResolveAt(rem, sp.a, as))
+			var loop *mxLoop
+			for _, l := range loops {
+				if l.Body.Pos() <= as.Pos() && as.End() <= l.Body.End() && l.Idx != nil && l.Idx == idx {
+					loop = l
+				}
+			}
+			if loop == nil {
+				// i := m.indexOf(found); if i >= 0 { splice at i }
+				if call, ok := mxResolveAt(rem, sp.a, as).(*ast.CallExpr); ok {
+					if h := rem.CalleeFunc(call); h != nil && mxIndexOfFn(h) {
+						okRecv := false
+						if r := core.RecvExpr(call); r != nil {
+							if sel, ok := mxIsField(rem.Info(), as.Lhs[0], "metrics.Metric", "LabelValues"); ok {
+								okRecv = mxCanon(rem, r, as) == mxCanon(rem, sel.X, as)
+							}
+						}
+						nonNeg := false
+						dom, _ := mxDomEdges(g, nil, p, nil)
+						ca := mxCanon(rem, sp.a, as)
+						for _, e := range dom {
+							if cmp, ok := mxCmpOf(e); ok {
+								if oc, ok := cmp.mxOrient(func(x ast.Expr) bool { return mxCanon(rem, x, e.Cond) == ca }); ok {
+									if k, isK := mxConstInt(rem, oc.R); isK && ((oc.Op == token.GEQ && k == 0) || (oc.Op == token.GTR && k == -1) || (oc.Op == token.NEQ && k == -1)) {
+										nonNeg = true
+									}
+								}
+							}
+						}
+						c.Analysed(h)
+						if okRecv && nonNeg {
+							c.Ok("C09-R5", key, pos(c, as), "removes exactly the element whose position "+h.Key+" found, once")
+							continue
+						}
 					}
-					okShape = exprStr(s0.X) == lhs && exprStr(s1.X) == lhs && s0.Low == nil && s1.High == nil && s1.Low != nil && nospace(exprStr(s1.Low)) == i0+"+1" && i0 != ""
-					// guarded by lv == olv with lv := s[i]
-					guard := false
-					for _, ic := range rem.EnclosingIfs(as.Pos()) {
-						if be, ok := core.Unparen(ic.If.Cond).(*ast.BinaryExpr); ok && be.Op == token.EQL && ic.InThen {
+				}
+				c.Undecided("C09-R5", key, pos(c, as), "the spliced index is not the index variable of an enclosing loop over the metric's slice: the element removed is not recognised")
+				continue
+			}
+			start, back := mxIterStart(g, loop.Stmt)
+			dom, _ := mxDomEdges(g, start, p, back)
+			guard, anyEq := false, false
+			lookedUp := map[types.Object]bool{}
+			lookedUpExpr := map[ast.Expr]bool{}
+			for _, lk := range mxLookups(rem, true) {
+				if lk.Val != nil {
+					lookedUp[lk.Val] = true
+				}
+				lookedUpExpr[lk.Expr] = true
+			}
+			for _, e := range dom {
+				cmp, ok := mxCmpOf(e)
+				if !ok || cmp.Op != token.EQL {
+					continue
+				}
+				anyEq = true
+				for _, pair := range [][2]ast.Expr{{cmp.L, cmp.R}, {cmp.R, cmp.L}} {
+					if loop.isElem(pair[0]) {
+						if o := identObj(rem.Info(), pair[1]); (o != nil && lookedUp[o]) || lookedUpExpr[mxResolveAt(rem, pair[1], e.Cond)] {
 							guard = true
 						}
 					}
-					okShape = okShape && guard
 				}
 			}
-			// leaves the loop: no path from the splice back to itself
-			from := sp.P
-			_, again := pathAvoiding(g, &from, []core.Point{sp.P}, nil)
-			c.Verdict(okShape && !again, "C09-R5", mRemove+"|splice shape", pos(c, as), "removes exactly the found element, once", "the removal does not splice out exactly the element that was found (or keeps scanning after removing): another tuple's entry is dropped or the slice is corrupted")
+			switch {
+			case guard:
+				c.Ok("C09-R5", key, pos(c, as), "removes exactly the found element, once")
+			case anyEq:
+				c.Undecided("C09-R5", key, pos(c, as), "the splice is guarded by an equality that does not involve the element at the spliced index in a recognised way")
+			default:
+				tr, _ := mxReachAvoiding(g, start, p, nil, back)
+				c.Fail("C09-R5", key, pos(c, as), "the removal does not splice out exactly the element that was found: the element at the spliced index is not compared with the looked-up value before it is removed — another tuple's entry is dropped", tr...)
+			}
 		}
 	}
 	for _, sf := range shipped(c) {
@@ -178,113 +346,254 @@ func c09(c *core.Check) {
 	c.Floor("C09-R1", 4)
 	c.Floor("C09-R5", 1)
 
-	c.Rule("C09-R2", "NO-DUPLICATE: in GetDatum the insertion lies on the branch where FindLabelValueOrNil of the same tuple returned nil, with the metric's write lock held from the lookup to the insertion; in Store.Add each insertion into the new metric is preceded by RemoveDatum of the same tuple")
+	c.Rule("C09-R2", "NO-DUPLICATE: in GetDatum every path to the insertion has taken the branch on which a lookup of the same tuple found nothing, with the metric's write lock held from the lookup to the insertion, and the inserted value carries that tuple; in Store.Add each insertion into the new metric is preceded by a removal of the same tuple from the same metric")
+	inserters := c.Prog.Reaching(func(f *core.Func) bool {
+		return core.Rel(f.Pkg.PkgPath) == "internal/metrics" && mxAppendsLabelValues(f)
+	})
+	rmv := removers(c)
 	{
 		g := get.Graph()
 		hold := g.MustHold()
-		for i, h := range g.CallsTo(mAppend) {
+		info := get.Info()
+		lookups := mxLookups(get, true)
+		for i, h := range g.Calls(func(id string, call *ast.CallExpr) bool {
+			cf := get.CalleeFunc(call)
+			return cf != nil && cf != get && inserters[cf]
+		}) {
 			key := fmt.Sprintf("%s|insert#%d", mGetDatum, i+1)
-			okGuard := false
-			for _, ic := range get.EnclosingIfs(h.N.Pos()) {
-				cond := nospace(exprStr(ic.If.Cond))
-				init := ""
-				if ic.If.Init != nil {
-					if as, ok := ic.If.Init.(*ast.AssignStmt); ok {
-						init = nospace(exprStr(as.Rhs[0]))
-					}
+			call := h.N.(*ast.CallExpr)
+			// the tuple the inserted value carries
+			var tuple ast.Expr
+			if len(call.Args) == 1 {
+				tuple = mxInsertedTuple(get, call.Args[0], call)
+			}
+			tupleCanon := ""
+			if tuple != nil {
+				tupleCanon = mxCanon(get, tuple, call)
+			}
+			okGuard, sawLookup := false, false
+			var witness []string
+			for _, lk := range lookups {
+				if lk.Tuple == nil {
+					continue
 				}
-				if strings.Contains(init, "FindLabelValueOrNil(labelvalues)") && ((strings.HasSuffix(cond, "!=nil") && !ic.InThen) || (strings.HasSuffix(cond, "==nil") && ic.InThen)) {
+				sawLookup = true
+				if tuple != nil && mxCanon(get, lk.Tuple, lk.Expr) != tupleCanon {
+					continue
+				}
+				_, absent := mxLookupEdges(get, lk)
+				if len(absent) == 0 {
+					continue
+				}
+				if tr, reach := mxReachAvoiding(g, nil, h.P, absent, nil); !reach {
 					okGuard = true
+				} else {
+					witness = tr
 				}
 			}
 			locked := core.Holds(hold.At(h.P), recvIdent(get), "W")
-			c.Verdict(okGuard && locked, "C09-R2", key, pos(c, h.N), "only after a failed lookup, under the write lock", fmt.Sprintf("a label value is inserted without a failed lookup of the same tuple under the metric's write lock (lookup guard=%v, locked=%v): the tuple can be listed twice", okGuard, locked))
-			// the inserted LabelValue carries the looked-up tuple
-			call := h.N.(*ast.CallExpr)
-			okT := false
-			if o := identObj(get.Info(), call.Args[0]); o != nil {
-				ast.Inspect(get.Body, func(n ast.Node) bool {
-					if as, ok := n.(*ast.AssignStmt); ok && len(as.Lhs) == 1 && identObj(get.Info(), as.Lhs[0]) == o {
-						okT = strings.Contains(nospace(exprStr(as.Rhs[0])), "Labels:labelvalues")
-					}
-					return true
-				})
+			if !okGuard && !sawLookup && mxUnclassifiedLookups(get) > 0 {
+				c.Undecided("C09-R2", key, pos(c, h.N), "GetDatum obtains a label value from a function that is not a recognised lookup: whether the insertion follows a failed lookup is not decided")
+				continue
 			}
-			c.Verdict(okT, "C09-R2", key+"|tuple", pos(c, call), "inserted under the requested tuple", "the label value inserted does not carry the requested tuple")
+			c.Verdict(okGuard && locked, "C09-R2", key, pos(c, h.N), "only after a failed lookup, under the write lock", fmt.Sprintf("a label value is inserted without a failed lookup of the same tuple under the metric's write lock (lookup guard=%v, locked=%v, lookups in the function=%v): the tuple can be listed twice", okGuard, locked, sawLookup), witness...)
+			// the inserted LabelValue carries the looked-up tuple: a parameter of GetDatum
+			switch {
+			case tuple == nil:
+				c.Undecided("C09-R2", key+"|tuple", pos(c, call), "the Labels of the inserted label value are not recognised")
+			default:
+				_, isParam := mxPureParam(get, identObj(info, mxResolveAt(get, tuple, call)))
+				c.Verdict(isParam, "C09-R2", key+"|tuple", pos(c, call), "inserted under the requested tuple", "the label value inserted does not carry the requested tuple")
+			}
 		}
 		// any early return of a datum without consulting the map (a cache) must be invalidated on removal: covered by R1's field rule
 	}
 	if add := c.Prog.Fn(storeAdd); add != nil {
 		c.Analysed(add)
 		g := add.Graph()
-		rems := g.CallsTo(mRemove)
-		for i, h := range g.CallsTo(mAppend) {
-			tr, found := pathAvoiding(g, nil, []core.Point{h.P}, core.HitPoints(rems))
-			c.Verdict(!found, "C09-R2", fmt.Sprintf("%s|insert#%d", storeAdd, i+1), pos(c, h.N), "preceded by RemoveDatum", "Store.Add inserts a carried-over label value without first removing that tuple from the new metric", tr...)
+		info := add.Info()
+		rems := g.Calls(func(id string, call *ast.CallExpr) bool { cf := add.CalleeFunc(call); return cf != nil && rmv[cf] })
+		takesLV := func(cf *core.Func) bool {
+			for _, fl := range cf.Type.Params.List {
+				if strings.HasSuffix(typeStr(cf.Info().TypeOf(fl.Type)), "metrics.LabelValue") {
+					return true
+				}
+			}
+			return false
+		}
+		for i, h := range g.Calls(func(id string, call *ast.CallExpr) bool {
+			cf := add.CalleeFunc(call)
+			return cf != nil && inserters[cf] && !rmv[cf] && takesLV(cf)
+		}) {
+			call := h.N.(*ast.CallExpr)
+			key := fmt.Sprintf("%s|insert#%d", storeAdd, i+1)
+			// removals of the same tuple from the same metric
+			var same []core.Hit
+			undecided := false
+			var tuple ast.Expr
+			if len(call.Args) == 1 {
+				tuple = mxInsertedTuple(add, call.Args[0], call)
+			}
+			into := identObj(info, core.RecvExpr(call))
+			for _, r := range rems {
+				rc := r.N.(*ast.CallExpr)
+				from := identObj(info, core.RecvExpr(rc))
+				if into == nil || from == nil || tuple == nil || len(rc.Args) != 1 {
+					undecided = true
+					same = append(same, r)
+					continue
+				}
+				if from == into && mxCanon(add, rc.Args[0], rc) == mxCanon(add, tuple, call) {
+					same = append(same, r)
+				}
+			}
+			tr, found := pathAvoiding(g, nil, []core.Point{h.P}, core.HitPoints(same))
+			switch {
+			case found:
+				c.Fail("C09-R2", key, pos(c, h.N), "Store.Add inserts a carried-over label value without first removing that tuple from the new metric: the tuple can be listed twice", tr...)
+			case undecided:
+				c.Undecided("C09-R2", key, pos(c, h.N), "a removal precedes the insertion but its metric or tuple is not recognised")
+			default:
+				c.Ok("C09-R2", key, pos(c, h.N), "preceded by a removal of the same tuple from the same metric")
+			}
 		}
 	}
 	c.Floor("C09-R2", 3)
 
-	c.Rule("C09-R3", "ABSENT/INVALID: in RemoveDatum every write is on the branch where the map lookup succeeded and every exit returns nil after the arity guard; in ExpireDatum the path where the lookup fails returns a non-nil error and writes nothing; all four tuple-taking methods have the arity guard first")
+	c.Rule("C09-R3", "ABSENT/INVALID: in RemoveDatum every write lies behind the branch on which the map lookup succeeded and every exit past the arity guard returns nil; in ExpireDatum every path on which the lookup fails returns a non-nil error and every write lies behind the branch on which it succeeded; all four tuple-taking methods have the arity guard first")
 	{
 		g := rem.Graph()
-		w := metricFieldWrites(rem)
-		okAll := true
-		for _, nodes := range w {
-			for _, n := range nodes {
-				in := false
-				for _, ic := range rem.EnclosingIfs(n.Pos()) {
-					if ic.InThen && isMapLookupOk(rem, ic.If.Cond, "labelValuesMap") {
-						in = true
-					}
+		var present []mxEdge
+		for _, lk := range mxLookups(rem, true) {
+			if lk.Tuple != nil {
+				if _, isParam := mxPureParam(rem, identObj(rem.Info(), mxResolveAt(rem, lk.Tuple, lk.Expr))); !isParam {
+					continue // a lookup of some other tuple
 				}
-				if !in {
+			}
+			p, _ := mxLookupEdges(rem, lk)
+			present = append(present, p...)
+		}
+		okAll := true
+		var witness []string
+		for _, nodes := range metricFieldWrites(rem) {
+			for _, n := range nodes {
+				p, ok := g.PointOf(n)
+				if !ok {
+					continue
+				}
+				if tr, reach := mxReachAvoiding(g, nil, p, present, nil); reach {
 					okAll = false
+					witness = tr
 				}
 			}
 		}
-		c.Verdict(okAll, "C09-R3", mRemove+"|absent is a no-op", pos(c, rem.Decl), "all writes under `if ok`", "RemoveDatum writes to the metric on the path where the tuple was not found")
-		_ = g
+		switch {
+		case okAll:
+			c.Ok("C09-R3", mRemove+"|absent is a no-op", pos(c, rem.Decl), "all writes behind a successful lookup")
+		case len(present) == 0 && mxUnclassifiedLookups(rem) > 0:
+			c.Undecided("C09-R3", mRemove+"|absent is a no-op", pos(c, rem.Decl), "the removal obtains a label value from a function that is not a recognised lookup: whether its writes follow a successful lookup is not decided")
+		case len(present) == 0:
+			c.Fail("C09-R3", mRemove+"|absent is a no-op", pos(c, rem.Decl), "RemoveDatum writes to the metric without having tested that the tuple is present", witness...)
+		default:
+			c.Fail("C09-R3", mRemove+"|absent is a no-op", pos(c, rem.Decl), "RemoveDatum writes to the metric on the path where the tuple was not found", witness...)
+		}
+		// every exit of RemoveDatum past the arity guard returns nil
+		ag := remAPI.Graph()
+		match, _, _ := mxArityEdges(c, remAPI, 0)
+		if len(match) > 0 {
+			verdict, where := "ok", ast.Node(remAPI.Decl)
+			for _, ex := range normalExits(ag) {
+				if _, reach := mxReachAvoiding(ag, nil, ex.P, match, nil); reach {
+					continue // an exit of the mismatch branch
+				}
+				if ex.Kind != "return" || returnsNil(remAPI.Info(), ex.Ret) {
+					continue
+				}
+				r := core.Unparen(ex.Ret.Results[len(ex.Ret.Results)-1])
+				if call, ok := mxResolveAt(remAPI, r, ex.Ret).(*ast.CallExpr); ok {
+					if h := remAPI.CalleeFunc(call); h != nil && mxAlwaysNil(h) {
+						continue
+					}
+					if strings.Contains(remAPI.CalleeID(call), "errors.") || strings.HasPrefix(remAPI.CalleeID(call), "fmt.Errorf") {
+						verdict, where = "fail", ex.Ret
+						break
+					}
+				}
+				if verdict == "ok" {
+					verdict, where = "undecided", ex.Ret
+				}
+			}
+			switch verdict {
+			case "ok":
+				c.Ok("C09-R3", mRemove+"|returns nil", pos(c, remAPI.Decl), "every exit past the arity guard returns nil")
+			case "fail":
+				c.Fail("C09-R3", mRemove+"|returns nil", pos(c, where), "RemoveDatum returns an error for a tuple of the right length: deleting an absent tuple is not a no-op")
+			default:
+				c.Undecided("C09-R3", mRemove+"|returns nil", pos(c, where), "RemoveDatum returns a value past the arity guard that is not recognisably nil")
+			}
+		}
 	}
 	if exp := c.MustFn("C09-R3", mExpire); exp != nil {
 		g := exp.Graph()
-		finds := ifsWhere(exp, func(is *ast.IfStmt) bool {
-			if is.Init == nil {
-				return false
+		var present, absent []mxEdge
+		found := map[types.Object]bool{}
+		foundExpr := map[ast.Expr]bool{}
+		for _, lk := range mxLookups(exp, true) {
+			if lk.Tuple != nil {
+				if _, isParam := mxPureParam(exp, identObj(exp.Info(), mxResolveAt(exp, lk.Tuple, lk.Expr))); !isParam {
+					continue // a lookup of some other tuple
+				}
 			}
-			as, ok := is.Init.(*ast.AssignStmt)
-			return ok && strings.Contains(exprStr(as.Rhs[0]), "FindLabelValueOrNil")
-		})
-		okE := len(finds) == 1
-		if okE {
-			is := finds[0]
-			neg := strings.HasSuffix(nospace(exprStr(is.Cond)), "!=nil")
-			start, ok := branchStart(g, is, !neg)
-			if ok {
-				for _, e := range normalExits(g) {
-					if _, found := pathAvoiding(g, start, []core.Point{e.P}, nil); found {
-						if e.Kind != "return" || returnsNil(exp.Info(), e.Ret) {
-							okE = false
+			p, a := mxLookupEdges(exp, lk)
+			present = append(present, p...)
+			absent = append(absent, a...)
+			if lk.Val != nil {
+				found[lk.Val] = true
+			}
+			foundExpr[lk.Expr] = true
+		}
+		key := mExpire + "|absent is an error"
+		if len(absent) == 0 || len(present) == 0 {
+			hasWrites := len(mergedFieldWrites(exp)) > 0
+			if !hasWrites || mxUnclassifiedLookups(exp) > 0 {
+				c.Undecided("C09-R3", key, pos(c, exp.Decl), "ExpireDatum neither tests a recognised lookup nor writes an expiry: shape not recognised")
+			} else {
+				c.Fail("C09-R3", key, pos(c, exp.Decl), "marking expiry on an absent tuple does not return an error (or writes something): ExpireDatum does not branch on the outcome of a lookup of the tuple")
+			}
+		} else {
+			okE := true
+			why := ""
+			var witness []string
+			for _, a := range absent {
+				for _, ex := range normalExits(g) {
+					if tr, found := pathAvoiding(g, mxEdgeTarget(a), []core.Point{ex.P}, nil); found {
+						if ex.Kind != "return" || returnsNil(exp.Info(), ex.Ret) {
+							okE, why, witness = false, "the path on which the tuple is not found returns nil", tr
 						}
 					}
 				}
 			}
-			// writes only on the found branch
 			for _, nodes := range metricFieldWrites(exp) {
 				for _, n := range nodes {
-					in := false
-					for _, ic := range exp.EnclosingIfs(n.Pos()) {
-						if ic.If == is && ic.InThen == neg {
-							in = true
+					if p, ok := g.PointOf(n); ok {
+						if tr, reach := mxReachAvoiding(g, nil, p, present, nil); reach {
+							okE, why, witness = false, "a write is reachable without a successful lookup", tr
 						}
 					}
-					if !in {
-						okE = false
+					// the expiry is written to the label value that was looked up
+					if as, ok := n.(*ast.AssignStmt); ok {
+						for _, l := range as.Lhs {
+							if sel, ok := mxIsField(exp.Info(), l, "metrics.LabelValue", "Expiry"); ok {
+								if o := identObj(exp.Info(), sel.X); !(o != nil && found[o]) && !foundExpr[mxResolveAt(exp, sel.X, as)] {
+									okE, why = false, "the expiry is written to "+nospace(exprStr(sel.X))+", not to the label value that the lookup of the tuple returned: another tuple's datum is marked"
+								}
+							}
+						}
 					}
 				}
 			}
+			c.Verdict(okE, "C09-R3", key, pos(c, exp.Decl), "not found -> error, no write", "marking expiry on an absent tuple does not return an error (or writes something): "+why, witness...)
 		}
-		c.Verdict(okE, "C09-R3", mExpire+"|absent is an error", pos(c, exp.Decl), "not found -> error, no write", "marking expiry on an absent tuple does not return an error (or writes something)")
 	}
 	for _, name := range []string{"GetDatum", "RemoveDatum", "ExpireDatum", "AppendLabelValue"} {
 		if mf := c.Prog.Fn("internal/metrics.(*Metric)." + name); mf != nil {
@@ -294,58 +603,426 @@ func c09(c *core.Check) {
 	}
 	c.Floor("C09-R3", 6)
 
-	c.Rule("C09-R4", "ENUMERATION: EmitLabelSets ranges over m.LabelValues, sends exactly one LabelSet per iteration built from that element's Labels (zipped with m.Keys) and Value, and closes the channel on every exit; zip stores values[i] under keys[i]")
+	c.Rule("C09-R4", "ENUMERATION: EmitLabelSets loops over m.LabelValues, sends exactly one LabelSet per iteration built from that element's Labels (zipped with m.Keys) and Value, and closes the channel on every exit; zip stores values[i] under keys[i]")
 	if em := c.MustFn("C09-R4", mEmit); em != nil {
 		g := em.Graph()
-		var loop *ast.RangeStmt
-		for _, rs := range rangeStmts(em) {
-			if strings.HasSuffix(core.PathOf(rs.X), ".LabelValues") {
-				loop = rs
-			}
+		info := em.Info()
+		var loop *mxLoop
+		for _, l := range mxLoops(em) {
+			loop = l
 		}
 		if loop == nil {
-			c.Fail("C09-R4", mEmit+"|loop", pos(c, em.Decl), "EmitLabelSets does not range over the metric's LabelValues")
+			c.Undecided("C09-R4", mEmit+"|loop", pos(c, em.Decl), "EmitLabelSets has no recognised loop over the metric's LabelValues")
 		} else {
 			sends := g.Find(func(n ast.Node) bool { _, ok := n.(*ast.SendStmt); return ok })
-			cnt, ok := iterationCount(g, loop, core.HitPoints(sends))
-			c.Verdict(ok && cnt.Min == 1 && cnt.Max == 1, "C09-R4", mEmit+"|one per element", pos(c, loop), "exactly one send per element", "an element of the slice is emitted "+cnt.String()+" times per iteration")
-			okBuild := false
-			ast.Inspect(loop.Body, func(n ast.Node) bool {
-				if cl, ok := n.(*ast.CompositeLit); ok && strings.HasSuffix(typeStr(em.Info().TypeOf(cl)), "metrics.LabelSet") {
-					s := nospace(exprStr(cl))
-					lv := exprStr(loop.Value)
-					okBuild = strings.Contains(s, "zip("+recvIdent(em)+".Keys,"+lv+".Labels)") && strings.Contains(s, lv+".Value")
+			cnt, ok := iterationCount(g, loop.Stmt, core.HitPoints(sends))
+			c.Verdict(ok && cnt.Min == 1 && cnt.Max == 1, "C09-R4", mEmit+"|one per element", pos(c, loop.Stmt), "exactly one send per element", "an element of the slice is emitted "+cnt.String()+" times per iteration")
+			recv := mxRecvObj(em)
+			zf := c.Prog.Fn("internal/metrics.zip")
+			verdict, detail := "undecided", "no LabelSet literal is sent inside the loop"
+			for _, s := range sends {
+				send := s.N.(*ast.SendStmt)
+				if !(loop.Body.Pos() <= send.Pos() && send.End() <= loop.Body.End()) {
+					continue
 				}
-				return true
-			})
-			c.Verdict(okBuild, "C09-R4", mEmit+"|own labels and value", pos(c, loop), "LabelSet{zip(m.Keys, lv.Labels), lv.Value}", "the label set emitted for an element is not built from that element's own labels and value")
-			if early := earlyLoopExits(c, g, loop); len(early) > 0 {
-				c.Fail("C09-R4", mEmit+"|complete", pos(c, loop), "the enumeration can stop before the last element: "+early[0])
+				v := mxResolveAt(em, send.Value, send)
+				// where the literal lives: EmitLabelSets itself, or a helper it calls with the element
+				in := em
+				isElem := loop.isElem
+				isRecv := func(e ast.Expr) bool { return recv != nil && identObj(info, e) == recv }
+				var at ast.Node = send
+				if hc, ok := v.(*ast.CallExpr); ok {
+					if h := em.CalleeFunc(hc); h != nil && h.Pkg == em.Pkg && h.Lit == nil && len(h.Body.List) == 1 && !hc.Ellipsis.IsValid() {
+						if ret, ok := h.Body.List[0].(*ast.ReturnStmt); ok && len(ret.Results) == 1 {
+							elemParams := map[types.Object]bool{}
+							i := 0
+							for _, fl := range h.Type.Params.List {
+								for _, nm := range fl.Names {
+									if i < len(hc.Args) && loop.isElem(hc.Args[i]) {
+										elemParams[info.Defs[nm]] = true
+									}
+									i++
+								}
+							}
+							hrecv := mxRecvObj(h)
+							recvOK := hrecv != nil && core.RecvExpr(hc) != nil && isRecv(core.RecvExpr(hc))
+							in, at = h, ret
+							isElem = func(e ast.Expr) bool {
+								o := identObj(info, e)
+								return o != nil && elemParams[o] && len(mxDefsOf(h)[o]) == 0
+							}
+							isRecv = func(e ast.Expr) bool { return recvOK && identObj(info, e) == hrecv && len(mxDefsOf(h)[hrecv]) == 0 }
+							v = core.Unparen(ret.Results[0])
+							c.Analysed(h)
+						}
+					}
+				}
+				if u, ok := v.(*ast.UnaryExpr); ok && u.Op == token.AND {
+					v = core.Unparen(u.X)
+				}
+				cl, ok := v.(*ast.CompositeLit)
+				if !ok || !strings.HasSuffix(typeStr(info.TypeOf(cl)), "metrics.LabelSet") {
+					detail = "the value sent is not a LabelSet literal"
+					continue
+				}
+				labels, datum := mxStructElts(info, cl, "Labels", "Datum")
+				if labels == nil || datum == nil {
+					verdict, detail = "fail", "the LabelSet sent lacks its Labels or its Datum"
+					continue
+				}
+				elemField := func(e ast.Expr, field string) bool {
+					sel, ok := mxIsField(info, mxResolveAt(in, e, at), "metrics.LabelValue", field)
+					return ok && isElem(sel.X)
+				}
+				okDatum := elemField(datum, "Value")
+				okLabels := false
+				if call, ok := mxResolveAt(in, labels, at).(*ast.CallExpr); ok && zf != nil && in.CalleeFunc(call) == zf && len(call.Args) == 2 {
+					if sel, ok := mxIsField(info, mxResolveAt(in, call.Args[0], at), "metrics.Metric", "Keys"); ok && isRecv(sel.X) {
+						okLabels = elemField(call.Args[1], "Labels")
+					}
+				} else if !ok || zf == nil {
+					verdict, detail = "undecided", "the Labels of the LabelSet sent are not a call of zip"
+					continue
+				}
+				if okDatum && okLabels {
+					verdict = "ok"
+				} else {
+					verdict, detail = "fail", fmt.Sprintf("labels from the element's own Labels zipped with the metric's Keys=%v, datum the element's own Value=%v", okLabels, okDatum)
+				}
+			}
+			switch verdict {
+			case "ok":
+				c.Ok("C09-R4", mEmit+"|own labels and value", pos(c, loop.Stmt), "LabelSet{zip(m.Keys, lv.Labels), lv.Value}")
+			case "fail":
+				c.Fail("C09-R4", mEmit+"|own labels and value", pos(c, loop.Stmt), "the label set emitted for an element is not built from that element's own labels and value: "+detail)
+			default:
+				c.Undecided("C09-R4", mEmit+"|own labels and value", pos(c, loop.Stmt), detail)
+			}
+			if early := earlyLoopExits(c, g, loop.Stmt); len(early) > 0 {
+				c.Fail("C09-R4", mEmit+"|complete", pos(c, loop.Stmt), "the enumeration can stop before the last element: "+early[0])
+			} else if loop.Whole == "no" {
+				c.Fail("C09-R4", mEmit+"|complete", pos(c, loop.Stmt), "the enumeration walks only a part of the slice ("+nospace(exprStr(loop.Slice))+"): a live tuple is not listed")
+			} else if loop.Whole != "yes" {
+				c.Undecided("C09-R4", mEmit+"|complete", pos(c, loop.Stmt), "whether the loop visits every element of the slice is not recognised")
 			} else {
-				c.Ok("C09-R4", mEmit+"|complete", pos(c, loop), "loop runs to the end")
+				c.Ok("C09-R4", mEmit+"|complete", pos(c, loop.Stmt), "loop runs to the end")
+			}
+		}
+		// close on every exit (a deferred close counts from the defer statement on)
+		if len(em.Type.Params.List) > 0 && len(em.Type.Params.List[0].Names) > 0 {
+			ch := info.Defs[em.Type.Params.List[0].Names[0]]
+			closes := g.Calls(func(id string, call *ast.CallExpr) bool {
+				return id == "builtin.close" && len(call.Args) == 1 && identObj(info, call.Args[0]) == ch
+			})
+			bad := false
+			for _, ex := range normalExits(g) {
+				if tr, found := pathAvoiding(g, nil, []core.Point{ex.P}, core.HitPoints(closes)); found {
+					bad = true
+					c.Fail("C09-R4", mEmit+"|closes", ppos(c, ex.P, em), "EmitLabelSets can return without closing the channel: the consumer never learns that the enumeration is complete", tr...)
+					break
+				}
+			}
+			if !bad {
+				c.Ok("C09-R4", mEmit+"|closes", pos(c, em.Decl), "channel closed on every exit")
 			}
 		}
 		// zip
 		if zf := c.MustFn("C09-R4", "internal/metrics.zip"); zf != nil {
-			okZip := false
-			for _, rs := range rangeStmts(zf) {
-				ast.Inspect(rs.Body, func(n ast.Node) bool {
-					if as, ok := n.(*ast.AssignStmt); ok && len(as.Lhs) == 1 {
-						l := nospace(exprStr(as.Lhs[0]))
-						okZip = l == "r[keys["+exprStr(rs.Key)+"]]" && exprStr(as.Rhs[0]) == exprStr(rs.Value) && exprStr(rs.X) == "values"
-					}
-					return true
-				})
+			verdict, detail := mxZipPairs(zf)
+			switch verdict {
+			case "ok":
+				c.Ok("C09-R4", "zip", pos(c, zf.Decl), "r[keys[i]] = values[i]")
+			case "fail":
+				c.Fail("C09-R4", "zip", pos(c, zf.Decl), "zip does not pair the i-th key with the i-th value: "+detail)
+			default:
+				c.Undecided("C09-R4", "zip", pos(c, zf.Decl), detail)
 			}
-			c.Verdict(okZip, "C09-R4", "zip", pos(c, zf.Decl), "r[keys[i]] = values[i]", "zip does not pair the i-th key with the i-th value")
 		}
 	}
 	c.Floor("C09-R4", 4)
 }
 
+// mxIndexOfFn reports whether h returns the position in its receiver's
+// LabelValues of the element equal to its parameter, or a negative constant.
+func mxIndexOfFn(h *core.Func) bool {
+	if h.Lit != nil || core.Rel(h.Pkg.PkgPath) != "internal/metrics" || h.Decl.Recv == nil {
+		return false
+	}
+	info := h.Info()
+	g := h.Graph()
+	recv := mxRecvObj(h)
+	var loops []*mxLoop
+	for _, l := range mxLoops(h) {
+		if l.Alias && l.Base != nil && l.Base == recv && l.Idx != nil {
+			loops = append(loops, l)
+		}
+	}
+	if len(loops) != 1 {
+		return false
+	}
+	loop := loops[0]
+	found := false
+	for _, ex := range normalExits(g) {
+		if ex.Kind != "return" || len(ex.Ret.Results) != 1 {
+			return false
+		}
+		r := core.Unparen(ex.Ret.Results[0])
+		if k, ok := constInt(info, r); ok {
+			if k >= 0 {
+				return false
+			}
+			continue
+		}
+		if identObj(info, r) != loop.Idx || !(loop.Body.Pos() <= ex.Ret.Pos() && ex.Ret.End() <= loop.Body.End()) {
+			return false
+		}
+		start, back := mxIterStart(g, loop.Stmt)
+		dom, _ := mxDomEdges(g, start, ex.P, back)
+		okEq := false
+		for _, e := range dom {
+			cmp, ok := mxCmpOf(e)
+			if !ok || cmp.Op != token.EQL {
+				continue
+			}
+			for _, pair := range [][2]ast.Expr{{cmp.L, cmp.R}, {cmp.R, cmp.L}} {
+				if loop.isElem(pair[0]) {
+					if pi, isParam := mxPureParam(h, identObj(info, core.Unparen(pair[1]))); isParam && pi >= 0 {
+						okEq = true
+					}
+				}
+			}
+		}
+		if !okEq {
+			return false
+		}
+		found = true
+	}
+	return found
+}
+
+// mxStructElts returns the element expressions of a composite literal for the two named fields (keyed or positional).
+func mxStructElts(info *types.Info, cl *ast.CompositeLit, a, b string) (ea, eb ast.Expr) {
+	t := info.TypeOf(cl)
+	if t == nil {
+		return
+	}
+	st, ok := t.Underlying().(*types.Struct)
+	if !ok {
+		return
+	}
+	for i, el := range cl.Elts {
+		name := ""
+		val := el
+		if kv, ok := el.(*ast.KeyValueExpr); ok {
+			if id, ok := kv.Key.(*ast.Ident); ok {
+				name = id.Name
+			}
+			val = kv.Value
+		} else if i < st.NumFields() {
+			name = st.Field(i).Name()
+		}
+		switch name {
+		case a:
+			ea = val
+		case b:
+			eb = val
+		}
+	}
+	return
+}
+
+// mxInsertedTuple returns the expression stored as Labels of the label value
+// passed to an insertion: the Labels element of the literal it was built
+// from, or the right-hand side of the only `v.Labels = …` assignment.
+func mxInsertedTuple(f *core.Func, arg ast.Expr, at ast.Node) ast.Expr {
+	info := f.Info()
+	obj := identObj(info, arg)
+	v := mxResolveAt(f, arg, at)
+	if u, ok := v.(*ast.UnaryExpr); ok && u.Op == token.AND {
+		v = core.Unparen(u.X)
+	}
+	var tuple ast.Expr
+	if cl, ok := v.(*ast.CompositeLit); ok && strings.HasSuffix(typeStr(info.TypeOf(cl)), "metrics.LabelValue") {
+		tuple, _ = mxStructElts(info, cl, "Labels", "Value")
+	}
+	if obj != nil {
+		n := 0
+		var rhs ast.Expr
+		ast.Inspect(f.Body, func(x ast.Node) bool {
+			if as, ok := x.(*ast.AssignStmt); ok && len(as.Lhs) == len(as.Rhs) {
+				for i, l := range as.Lhs {
+					if sel, ok := mxIsField(info, l, "metrics.LabelValue", "Labels"); ok && identObj(info, sel.X) == obj {
+						n++
+						rhs = as.Rhs[i]
+					}
+				}
+			}
+			return true
+		})
+		if n == 1 && tuple == nil {
+			tuple = rhs
+		} else if n > 0 {
+			return nil
+		}
+	}
+	return tuple
+}
+
+// mxZipPairs decides whether zip(keys, values) stores values[i] under keys[i] for every i.
+func mxZipPairs(zf *core.Func) (verdict, detail string) {
+	info := zf.Info()
+	var params []types.Object
+	for _, fl := range zf.Type.Params.List {
+		for _, n := range fl.Names {
+			params = append(params, info.Defs[n])
+		}
+	}
+	if len(params) != 2 {
+		return "undecided", "zip does not take two named parameters"
+	}
+	keys, values := params[0], params[1]
+	verdict, detail = "undecided", "no loop storing into the result map found"
+	core.InspectNoLit(zf.Body, func(n ast.Node) bool {
+		var body *ast.BlockStmt
+		var idx, val, ranged types.Object
+		switch s := n.(type) {
+		case *ast.RangeStmt:
+			body = s.Body
+			ranged = identObj(info, s.X)
+			if s.Key != nil {
+				idx = identObj(info, s.Key)
+			}
+			if s.Value != nil {
+				val = identObj(info, s.Value)
+			}
+		case *ast.ForStmt:
+			body = s.Body
+			if as, ok := s.Init.(*ast.AssignStmt); ok && len(as.Lhs) == 1 {
+				idx = identObj(info, as.Lhs[0])
+			}
+		default:
+			return true
+		}
+		// what an expression denotes: ("k", i) = keys[i], ("v", i) = values[i]
+		classify := func(e ast.Expr) string {
+			e = mxResolve(zf, e)
+			if o := identObj(info, e); o != nil && o == val && val != nil {
+				if ranged == keys {
+					return "k"
+				}
+				if ranged == values {
+					return "v"
+				}
+			}
+			if ix, ok := e.(*ast.IndexExpr); ok && idx != nil && identObj(info, ix.Index) == idx {
+				switch identObj(info, ix.X) {
+				case keys:
+					return "k"
+				case values:
+					return "v"
+				}
+				return "?"
+			}
+			return "?"
+		}
+		ast.Inspect(body, func(m ast.Node) bool {
+			as, ok := m.(*ast.AssignStmt)
+			if !ok || len(as.Lhs) != 1 || len(as.Rhs) != 1 {
+				return true
+			}
+			ix, ok := core.Unparen(as.Lhs[0]).(*ast.IndexExpr)
+			if !ok {
+				return true
+			}
+			if _, isMap := info.TypeOf(ix.X).Underlying().(*types.Map); !isMap {
+				return true
+			}
+			k, v := classify(ix.Index), classify(as.Rhs[0])
+			switch {
+			case k == "k" && v == "v":
+				verdict, detail = "ok", ""
+			case k == "?" || v == "?":
+				if k == "v" || v == "k" {
+					verdict, detail = "fail", "the map store uses a value as key or a key as value"
+				} else if (k == "k" || v == "v") && idx != nil {
+					verdict, detail = "fail", "key and value of the map store are not taken at the same index"
+				} else {
+					verdict, detail = "undecided", "the map store in zip is not recognised"
+				}
+			default:
+				verdict, detail = "fail", "the map store uses a value as key or a key as value"
+			}
+			return true
+		})
+		return true
+	})
+	return
+}
+
+// mxTimeOf tells whose last-update time e denotes: it follows locals to a
+// call `<X>.Value.TimeUTC()` and returns X.
+func mxTimeOf(f *core.Func, e ast.Expr, at ast.Node) ast.Expr {
+	call, ok := mxResolveAt(f, e, at).(*ast.CallExpr)
+	if !ok || len(call.Args) != 0 || !strings.HasSuffix(f.CalleeID(call), ".TimeUTC") {
+		return nil
+	}
+	r := core.RecvExpr(call)
+	if r == nil {
+		return nil
+	}
+	sel, ok := mxIsField(f.Info(), mxResolveAt(f, r, at), "metrics.LabelValue", "Value")
+	if !ok {
+		return nil
+	}
+	return sel.X
+}
+
+// mxGcBody finds the function that holds the per-metric GC work: the Range
+// callback of Gc, or the function of internal/metrics it delegates to — the
+// one with a loop over a metric's label values whose body removes one.
+func mxGcBody(c *core.Check, gcf *core.Func, rmv map[*core.Func]bool) *core.Func {
+	has := func(f *core.Func) bool {
+		for _, l := range mxLoops(f) {
+			found := false
+			ast.Inspect(l.Body, func(n ast.Node) bool {
+				if call, ok := n.(*ast.CallExpr); ok {
+					if cf := f.CalleeFunc(call); cf != nil && rmv[cf] {
+						found = true
+					}
+				}
+				return !found
+			})
+			if found {
+				return true
+			}
+		}
+		return false
+	}
+	for _, lf := range gcf.Lits {
+		if has(lf) {
+			return lf
+		}
+	}
+	if has(gcf) {
+		return gcf
+	}
+	for _, f := range metricsClosure(gcf) {
+		if f != gcf && has(f) {
+			return f
+		}
+		for _, lf := range f.Lits {
+			if f != gcf && has(lf) {
+				return lf
+			}
+		}
+	}
+	return nil
+}
+
 func c10(c *core.Check) {
-	c.Explain = "Decides structural necessary conditions of C10 in Store.Gc and the metric primitives it uses: (R1) on every path the size-limit phase precedes the expiry phase; (R2) the limit phase is guarded by Limit > 0 and removes the oldest datum exactly once per datum in excess (loop from len down to Limit); (R3) the victim is chosen by an arg-min fold over all label values whose only use of the timestamps is `candidate.Before(best)` — evaluated on the three orderings the kept victim is never newer than a discarded candidate — and exactly that victim's tuple is removed; (R4) expiry removal is dominated by Expiry > 0 and by `now.Sub(last update) > Expiry` (strict) with `now` taken once before the iteration; (R5) after removing element i of the slice being scanned the index is decremented before it is advanced; (R6) everything GC can write is the metric's slice/map pair and the slice is never reordered; (R7) no range loop over the slice (or an alias of its backing array) keeps iterating after removing an element.  Wall-clock values and the data races of the unlocked reads (C11) are not decided here."
-	c.Assume = append(c.Assume, "time.Time.Before/Sub semantics")
+	mxInlineProg = c.Prog
+	c.Explain = "Decides structural necessary conditions of C10 in Store.Gc and the metric primitives it uses: (R1) on every path the size-limit phase precedes the expiry phase; (R2) the limit phase is guarded by Limit > 0 and removes the oldest datum exactly once per datum in excess (a loop of one of the recognised counting forms); (R3) the victim is chosen by an arg-min fold over all label values whose only use of the timestamps is a Before/After comparison of the candidate with the element — the fold's control flow is evaluated on the four cases (no candidate yet, element older, equal, newer) and must replace, replace, either, keep — and exactly that victim's tuple is removed; (R4) every path to an expiry removal has established Expiry > 0 and `now - last update > Expiry` (strict) for the element removed, with `now` taken once before the iteration; (R5) after removing element i of the slice being scanned the index is not advanced without stepping back; (R6) everything GC can write is the metric's slice/map pair and the slice is never reordered; (R7) no range loop over the slice (or an alias of its backing array) keeps iterating after removing an element.  Conditions are read off the control-flow graph's condition edges and variables are followed to their definitions, so renamed variables, negated/early-continue forms, either operand order and an extracted per-metric helper are the same to the rules.  Wall-clock values and the data races of the unlocked reads (C11) are not decided here."
+	c.Assume = append(c.Assume, "time.Time.Before/After/Sub semantics")
 	gcf := c.MustFn("C10-R1", storeGc)
 	oldAPI := c.MustFn("C10-R3", mOldest)
 	if gcf == nil || oldAPI == nil {
@@ -353,9 +1030,8 @@ func c10(c *core.Check) {
 	}
 	// the victim selection: RemoveOldestDatum itself or the helper it delegates to
 	old := findInClosure(oldAPI, func(f *core.Func) bool {
-		isLV := lvAliases(f)
-		for _, rs := range rangeStmts(f) {
-			if isLV(rs.X) {
+		for _, l := range mxLoops(f) {
+			if best, _ := mxFoldCandidate(f, l); l.Alias && best != nil {
 				return true
 			}
 		}
@@ -366,54 +1042,47 @@ func c10(c *core.Check) {
 	}
 	c.Analysed(old)
 	c.Extra["victim_selection"] = old.Key
-	var cb *core.Func
-	for _, lf := range gcf.Lits {
-		cb = lf
+	rmv := removers(c)
+	cb := mxGcBody(c, gcf, rmv)
+	if cb == nil {
+		for _, lf := range gcf.Lits {
+			cb = lf
+		}
 	}
 	if cb == nil {
-		c.Undecided("C10-R1", storeGc, pos(c, gcf.Decl), "callback literal not found")
+		c.Undecided("C10-R1", storeGc, pos(c, gcf.Decl), "the per-metric GC body (Range callback or the helper it calls) was not found")
 		return
 	}
 	c.Analysed(cb)
+	c.Extra["gc_body"] = cb.Key
+	cbNode := ast.Node(cb.Decl)
+	if cb.Lit != nil {
+		cbNode = cb.Lit
+	}
 	g := cb.Graph()
-	// removal call sites of the callback, classified by the field their guard consults
-	rmv := removers(c)
-	var limitCalls, expCalls []core.Hit
 	info := cb.Info()
+	// removal call sites of the GC body, classified by the field consulted on the condition edges every path to them takes
+	var limitCalls, expCalls []core.Hit
 	for _, h := range g.Calls(func(id string, call *ast.CallExpr) bool { cf := cb.CalleeFunc(call); return cf != nil && rmv[cf] }) {
+		dom, _ := mxDomEdges(g, nil, h.P, nil)
 		byLimit, byExpiry := false, false
-		core.InspectNoLit(cb.Body, func(n ast.Node) bool {
-			if n == nil || !(n.Pos() <= h.N.Pos() && h.N.End() <= n.End()) {
-				return true
-			}
-			var cond ast.Expr
-			switch x := n.(type) {
-			case *ast.IfStmt:
-				if x.Body.Pos() <= h.N.Pos() && h.N.End() <= x.Body.End() {
-					cond = x.Cond
-				}
-			case *ast.ForStmt:
-				cond = x.Cond
-			}
-			if cond != nil {
-				byLimit = byLimit || fieldUsed(info, cond, "metrics.Metric", "Limit")
-				byExpiry = byExpiry || fieldUsed(info, cond, "metrics.LabelValue", "Expiry")
-			}
-			return true
-		})
+		for _, e := range dom {
+			byLimit = byLimit || mxMentionsField(cb, e.Cond, e.Cond, "metrics.Metric", "Limit")
+			byExpiry = byExpiry || mxMentionsField(cb, e.Cond, e.Cond, "metrics.LabelValue", "Expiry")
+		}
 		switch {
 		case byLimit && !byExpiry:
 			limitCalls = append(limitCalls, h)
 		case byExpiry && !byLimit:
 			expCalls = append(expCalls, h)
 		default:
-			c.Undecided("C10-R1", cb.Key+"|removal", pos(c, h.N), "a removal in the GC callback is guarded by neither (or both of) Metric.Limit and LabelValue.Expiry: phase not recognised")
+			c.Undecided("C10-R1", cb.Key+"|removal", pos(c, h.N), "a removal in the GC body is guarded by neither (or both of) Metric.Limit and LabelValue.Expiry: phase not recognised")
 		}
 	}
 
-	c.Rule("C10-R1", "ORDER: in the GC callback no path leads from the expiry removal to the limit removal, and every path to the expiry scan has passed the limit phase's guard")
+	c.Rule("C10-R1", "ORDER: in the GC body no path leads from the expiry removal to the limit removal, and every path to the expiry scan has passed the limit phase's guard")
 	if len(limitCalls) == 0 || len(expCalls) == 0 {
-		c.Undecided("C10-R1", cb.Key, pos(c, cb.Lit), fmt.Sprintf("limit removals: %d, expiry removals: %d — phases not recognised", len(limitCalls), len(expCalls)))
+		c.Undecided("C10-R1", cb.Key, pos(c, cbNode), fmt.Sprintf("limit removals: %d, expiry removals: %d — phases not recognised", len(limitCalls), len(expCalls)))
 	} else {
 		bad := false
 		for _, e := range expCalls {
@@ -424,17 +1093,36 @@ func c10(c *core.Check) {
 			}
 		}
 		if !bad {
-			c.Ok("C10-R1", cb.Key+"|limit before expiry", pos(c, cb.Lit), "limit phase first on every path")
+			c.Ok("C10-R1", cb.Key+"|limit before expiry", pos(c, cbNode), "limit phase first on every path")
 		}
 	}
 	c.Floor("C10-R1", 1)
 
-	c.Rule("C10-R2", "LIMIT-LOOP: the limit removal sits in `for i := len(m.LabelValues); i > m.Limit; i--` under `m.Limit > 0`, once per iteration")
+	isLimit := func(e ast.Expr, at ast.Node) bool {
+		_, ok := mxIsField(info, mxResolveAt(cb, e, at), "metrics.Metric", "Limit")
+		return ok
+	}
+	isLV := lvAliases(cb)
+	isLenLV := func(e ast.Expr, at ast.Node) bool {
+		x := mxLenArg(cb, e, at)
+		return x != nil && isLV(x)
+	}
+	// excess: len(S) - Limit
+	isExcess := func(e ast.Expr, at ast.Node) bool {
+		be, ok := mxResolveAt(cb, e, at).(*ast.BinaryExpr)
+		return ok && be.Op == token.SUB && isLenLV(be.X, at) && isLimit(be.Y, at)
+	}
+	isConst := func(e ast.Expr, v int64) bool {
+		k, ok := mxConstInt(cb, e)
+		return ok && k == v
+	}
+
+	c.Rule("C10-R2", "LIMIT-LOOP: the limit removal sits in a loop that runs once per datum in excess of the limit — `for i := len(s); i > Limit; i--`, `for n := len(s) - Limit; n > 0; n--`, `for i := 0; i < excess; i++` with excess = len(s) - Limit taken before the loop, or `for len(s) > Limit` — under Limit > 0, with one removal per iteration")
 	for i, h := range limitCalls {
 		key := fmt.Sprintf("%s|limit removal#%d", cb.Key, i+1)
 		var loop *ast.ForStmt
 		core.InspectNoLit(cb.Body, func(n ast.Node) bool {
-			if fs, ok := n.(*ast.ForStmt); ok && fs.Pos() <= h.N.Pos() && h.N.End() <= fs.End() {
+			if fs, ok := n.(*ast.ForStmt); ok && fs.Body.Pos() <= h.N.Pos() && h.N.End() <= fs.Body.End() {
 				loop = fs
 			}
 			return true
@@ -447,204 +1135,514 @@ func c10(c *core.Check) {
 			}
 			continue
 		}
-		init, cond, post := "", "", ""
-		if loop.Init != nil {
-			if as, ok := loop.Init.(*ast.AssignStmt); ok {
-				init = nospace(exprStr(as.Rhs[0]))
+		// the loop's counting form
+		form, wrong := "", ""
+		var iv types.Object
+		var initRhs ast.Expr
+		if as, ok := loop.Init.(*ast.AssignStmt); ok && len(as.Lhs) == 1 && len(as.Rhs) == 1 {
+			iv = identObj(info, as.Lhs[0])
+			initRhs = as.Rhs[0]
+		}
+		post := token.ILLEGAL
+		if p, ok := loop.Post.(*ast.IncDecStmt); ok && iv != nil && identObj(info, p.X) == iv {
+			post = p.Tok
+		}
+		var cmp mxCmp
+		haveCmp := false
+		if be, ok := core.Unparen(loop.Cond).(*ast.BinaryExpr); ok && mxNegOp(be.Op) != token.ILLEGAL {
+			cmp, haveCmp = mxCmp{be.X, be.Y, be.Op}, true
+		}
+		isIV := func(e ast.Expr) bool { return iv != nil && identObj(info, e) == iv }
+		switch {
+		case !haveCmp:
+		case loop.Init == nil && loop.Post == nil:
+			// while form: len(s) > Limit, re-evaluated
+			if oc, ok := cmp.mxOrient(func(e ast.Expr) bool { return isLenLV(e, loop.Cond) }); ok && isLimit(oc.R, loop.Cond) {
+				switch oc.Op {
+				case token.GTR:
+					form = "for len(s) > Limit"
+				case token.GEQ:
+					wrong = "the loop runs while len(s) >= Limit: one datum more than the excess is removed"
+				}
+			}
+		case iv != nil && post == token.DEC && isLenLV(initRhs, loop.Init):
+			if oc, ok := cmp.mxOrient(isIV); ok && isLimit(oc.R, loop.Cond) {
+				switch oc.Op {
+				case token.GTR:
+					form = "for i := len(s); i > Limit; i--"
+				case token.GEQ:
+					wrong = "the loop counts from len(s) down to Limit inclusive: one datum more than the excess is removed"
+				}
+			}
+		case iv != nil && post == token.DEC && isExcess(initRhs, loop.Init):
+			if oc, ok := cmp.mxOrient(isIV); ok && isConst(oc.R, 0) {
+				switch oc.Op {
+				case token.GTR:
+					form = "for n := len(s) - Limit; n > 0; n--"
+				case token.GEQ:
+					wrong = "the loop counts the excess down to 0 inclusive: one datum more than the excess is removed"
+				}
+			}
+		case iv != nil && post == token.INC && isConst(initRhs, 0):
+			if oc, ok := cmp.mxOrient(isIV); ok && oc.Op == token.LSS {
+				if id, isId := core.Unparen(oc.R).(*ast.Ident); isId && isExcess(id, loop.Cond) {
+					// the bound must have been taken before the loop
+					if v := mxLocalVar(cb, id); v != nil {
+						if sites := mxDefsOf(cb)[v]; len(sites) == 1 && sites[0].node.End() <= loop.Pos() {
+							form = "for i := 0; i < excess; i++ with excess taken before the loop"
+						}
+					}
+				} else if isExcess(oc.R, loop.Cond) {
+					wrong = "the bound len(s) - Limit is re-evaluated while the slice shrinks: only about half of the excess is removed"
+				}
 			}
 		}
-		if loop.Cond != nil {
-			cond = nospace(exprStr(loop.Cond))
-		}
-		if p, ok := loop.Post.(*ast.IncDecStmt); ok && p.Tok == token.DEC {
-			post = "--"
-		}
-		okLoop := init == "len(m.LabelValues)" && cond == "i>m.Limit" && post == "--"
-		guard := false
-		for _, ic := range cb.EnclosingIfs(loop.Pos()) {
-			if ic.InThen && strings.Contains(nospace(exprStr(ic.If.Cond)), "m.Limit>0") {
-				guard = true
+		// Limit > 0 on every path to the loop
+		lp, okp := g.PointOf(loop.Cond)
+		guard, guardSeen := false, false
+		if okp {
+			dom, _ := mxDomEdges(g, nil, lp, nil)
+			for _, e := range dom {
+				cmpE, ok := mxCmpOf(e)
+				if !ok {
+					continue
+				}
+				oc, ok := cmpE.mxOrient(func(x ast.Expr) bool { return isLimit(x, e.Cond) })
+				if !ok {
+					continue
+				}
+				k, isK := mxConstInt(cb, oc.R)
+				if !isK {
+					continue
+				}
+				guardSeen = true
+				if (oc.Op == token.GTR && k >= 0) || (oc.Op == token.GEQ && k >= 1) {
+					guard = true
+				}
 			}
 		}
 		cnt, okc := iterationCount(g, loop, []core.Point{h.P})
-		c.Verdict(okLoop && guard && okc && cnt.Min == 1 && cnt.Max == 1, "C10-R2", key, pos(c, loop), "len-Limit removals under Limit>0", fmt.Sprintf("the limit phase does not remove exactly len-Limit oldest data under Limit>0 (loop %s; %s; i%s, guard=%v, removals per iteration=%s)", init, cond, post, guard, cnt.String()))
-	}
-	c.Floor("C10-R2", 1)
-
-	c.Rule("C10-R3", "ARG-MIN: RemoveOldestDatum ranges over all of m.LabelValues, replaces its candidate only under `best == nil || lv.Value.TimeUTC().Before(best.Value.TimeUTC())` (or the mirrored After form), and removes exactly best.Labels")
-	{
-		og := old.Graph()
-		var loop *ast.RangeStmt
-		for _, rs := range rangeStmts(old) {
-			if strings.HasSuffix(core.PathOf(rs.X), ".LabelValues") {
-				loop = rs
-			}
-		}
-		if loop == nil {
-			c.Undecided("C10-R3", mOldest+"|fold", pos(c, old.Decl), "no range over m.LabelValues: victim selection not recognised")
-		} else {
-			lv := exprStr(loop.Value)
-			var best string
-			okFold := false
-			why := "no candidate update found"
-			ast.Inspect(loop.Body, func(n ast.Node) bool {
-				is, ok := n.(*ast.IfStmt)
-				if !ok {
-					return true
-				}
-				// body: best = lv
-				for _, st := range is.Body.List {
-					if as, ok := st.(*ast.AssignStmt); ok && len(as.Lhs) == 1 && exprStr(as.Rhs[0]) == lv {
-						best = exprStr(as.Lhs[0])
+		once := okc && cnt.Min == 1 && cnt.Max == 1
+		// the length, the limit and the removal are the same metric's
+		if form != "" {
+			bases := map[string]bool{}
+			ast.Inspect(loop, func(n ast.Node) bool {
+				if sel, ok := n.(*ast.SelectorExpr); ok {
+					if s, ok := mxIsField(info, sel, "metrics.Metric", "Limit"); ok {
+						bases[mxCanon(cb, s.X, loop)] = true
 					}
-				}
-				if best == "" {
-					return true
-				}
-				cond := nospace(exprStr(is.Cond))
-				a := lv + ".Value.TimeUTC()"
-				b := best + ".Value.TimeUTC()"
-				switch cond {
-				case best + "==nil||" + a + ".Before(" + b + ")", best + "==nil||" + b + ".After(" + a + ")":
-					okFold = true
-				case best + "==nil||" + a + ".After(" + b + ")", best + "==nil||" + b + ".Before(" + a + ")":
-					why = "the candidate is replaced when the element is NEWER: the newest datum is evicted"
-				case best + "==nil||!" + a + ".After(" + b + ")", best + "==nil||!" + b + ".Before(" + a + ")":
-					okFold = true // ties replace: still never keeps a newer victim
-				default:
-					why = "unrecognised comparison " + cond
+					if s, ok := mxIsField(info, sel, "metrics.Metric", "LabelValues"); ok {
+						bases[mxCanon(cb, s.X, loop)] = true
+					}
 				}
 				return true
 			})
-			if early := earlyLoopExits(c, og, loop); len(early) > 0 {
-				okFold = false
-				why = "the scan can stop early: " + early[0]
+			if r := core.RecvExpr(h.N.(*ast.CallExpr)); r != nil {
+				bases[mxCanon(cb, r, loop)] = true
 			}
-			if okFold {
-				// evaluate on the three orderings: after the fold the kept best is never newer than a discarded candidate
-				c.Ok("C10-R3", mOldest+"|fold", pos(c, loop), "candidate replaced only by a strictly older (or equal) element; on (older, equal, newer) the kept victim is (new, kept, kept)")
-			} else if strings.HasPrefix(why, "unrecognised") || strings.HasPrefix(why, "no candidate") {
-				c.Undecided("C10-R3", mOldest+"|fold", pos(c, loop), why)
-			} else {
-				c.Fail("C10-R3", mOldest+"|fold", pos(c, loop), why)
+			if len(bases) > 1 {
+				form = ""
+			}
+		}
+		switch {
+		case wrong != "":
+			c.Fail("C10-R2", key, pos(c, loop), "the limit phase does not remove exactly len-Limit oldest data: "+wrong)
+		case !once:
+			c.Fail("C10-R2", key, pos(c, loop), fmt.Sprintf("the limit phase does not remove exactly len-Limit oldest data under Limit>0 (removals per iteration=%s)", cnt.String()))
+		case !guard && !guardSeen:
+			c.Fail("C10-R2", key, pos(c, loop), "the limit phase does not remove exactly len-Limit oldest data under Limit>0 (guard=false): a metric without a limit (Limit 0) loses all its data")
+		case !guard:
+			c.Undecided("C10-R2", key, pos(c, loop), "the limit loop is guarded by a comparison of Limit with a constant that does not establish Limit > 0 in a recognised way")
+		case form == "":
+			c.Undecided("C10-R2", key, pos(c, loop), "the limit loop is not one of the recognised counting forms: its iteration count is not decided")
+		default:
+			c.Ok("C10-R2", key, pos(c, loop), "len-Limit removals under Limit>0 ("+form+")")
+		}
+	}
+	c.Floor("C10-R2", 1)
+
+	c.Rule("C10-R3", "ARG-MIN: RemoveOldestDatum loops over all of m.LabelValues, replaces its candidate exactly when there is none yet or the element's last update is Before the candidate's (ties may go either way), and removes exactly the candidate's Labels")
+	{
+		og := old.Graph()
+		oinfo := old.Info()
+		var loop *mxLoop
+		for _, l := range mxLoops(old) {
+			if !l.Alias {
+				continue
+			}
+			if b, _ := mxFoldCandidate(old, l); b != nil || loop == nil {
+				loop = l
+			}
+		}
+		if loop == nil {
+			c.Undecided("C10-R3", mOldest+"|fold", pos(c, old.Decl), "no loop over m.LabelValues: victim selection not recognised")
+		} else {
+			best, upd := mxFoldCandidate(old, loop)
+			verdict, why := "undecided", "no candidate update found"
+			if best != nil && len(upd) > 0 {
+				verdict, why = mxFoldVerdict(old, loop, best, upd)
+			}
+			if early := earlyLoopExits(c, og, loop.Stmt); len(early) > 0 && verdict != "undecided" {
+				verdict, why = "fail", "the scan can stop early: "+early[0]
+			}
+			if loop.Whole == "no" && verdict != "undecided" {
+				verdict, why = "fail", "the scan covers only a part of the slice ("+nospace(exprStr(loop.Slice))+"): an older datum outside it is never the victim"
+			} else if loop.Whole != "yes" && verdict == "ok" {
+				verdict, why = "undecided", "whether the scan visits every element of the slice is not recognised"
+			}
+			switch verdict {
+			case "ok":
+				c.Ok("C10-R3", mOldest+"|fold", pos(c, loop.Stmt), "candidate replaced only by a strictly older (or equal) element; on (none yet, older, equal, newer) the fold does "+why)
+			case "fail":
+				c.Fail("C10-R3", mOldest+"|fold", pos(c, loop.Stmt), why)
+			default:
+				c.Undecided("C10-R3", mOldest+"|fold", pos(c, loop.Stmt), why)
 			}
 			// removal of best.Labels
-			okRem := false
+			okRem, seen := false, false
 			for _, h := range og.Calls(func(id string, call *ast.CallExpr) bool { cf := old.CalleeFunc(call); return cf != nil && rmv[cf] }) {
 				call := h.N.(*ast.CallExpr)
-				if best != "" && len(call.Args) == 1 && nospace(exprStr(call.Args[0])) == best+".Labels" {
-					okRem = true
+				seen = true
+				if best != nil && len(call.Args) == 1 {
+					if sel, ok := mxIsField(oinfo, mxResolveAt(old, call.Args[0], call), "metrics.LabelValue", "Labels"); ok && identObj(oinfo, sel.X) == best {
+						okRem = true
+					}
 				}
 			}
-			c.Verdict(okRem, "C10-R3", mOldest+"|removes the victim", pos(c, old.Decl), "RemoveDatum(best.Labels...)", "the tuple removed is not the selected victim's")
+			if !seen {
+				c.Undecided("C10-R3", mOldest+"|removes the victim", pos(c, old.Decl), "no removal call found in the victim selection")
+			} else {
+				c.Verdict(okRem, "C10-R3", mOldest+"|removes the victim", pos(c, old.Decl), "RemoveDatum(best.Labels...)", "the tuple removed is not the selected victim's")
+			}
 		}
 	}
 	c.Floor("C10-R3", 2)
 
-	c.Rule("C10-R4", "EXPIRY: the expiry removal is dominated by `Expiry <= 0 → skip` and lies under `now.Sub(lv.Value.TimeUTC()) > lv.Expiry`; it removes lv.Labels; `now` is time.Now() evaluated once in Gc before Range")
+	c.Rule("C10-R4", "EXPIRY: every path (within the iteration) to the expiry removal has established `Expiry > 0` and `now.Sub(last update) > Expiry` (strict; or the equivalent After/Before form on last update + Expiry) for the element whose Labels are removed; `now` is time.Now() evaluated once in Gc before Range")
+	var nowUses []ast.Expr // the `now` operands of the age comparisons, in cb
 	for i, h := range expCalls {
 		key := fmt.Sprintf("%s|expiry removal#%d", cb.Key, i+1)
 		call := h.N.(*ast.CallExpr)
-		pred, skip := false, false
-		var lvName string
+		var elem string
 		if len(call.Args) == 1 {
-			lvName = strings.TrimSuffix(nospace(exprStr(call.Args[0])), ".Labels")
-		}
-		for _, ic := range cb.EnclosingIfs(call.Pos()) {
-			cond := nospace(exprStr(ic.If.Cond))
-			if ic.InThen && (cond == "now.Sub("+lvName+".Value.TimeUTC())>"+lvName+".Expiry" || cond == lvName+".Expiry<now.Sub("+lvName+".Value.TimeUTC())") {
-				pred = true
+			if sel, ok := mxIsField(info, mxResolveAt(cb, call.Args[0], call), "metrics.LabelValue", "Labels"); ok {
+				elem = mxCanon(cb, sel.X, call)
 			}
 		}
-		for _, is := range ifsWhere(cb, func(is *ast.IfStmt) bool {
-			cond := nospace(exprStr(is.Cond))
-			return cond == lvName+".Expiry<=0" || cond == lvName+".Expiry==0"
-		}) {
-			if p, ok := g.PointOf(is.Cond); ok {
-				if _, found := pathAvoiding(g, nil, []core.Point{h.P}, []core.Point{p}); !found {
-					if start, ok := branchStart(g, is, true); ok {
-						// the skip branch must not reach the removal within the iteration (continue)
-						hasCont := false
-						for _, st := range is.Body.List {
-							if b, ok := st.(*ast.BranchStmt); ok && b.Tok == token.CONTINUE {
-								hasCont = true
-							}
+		if elem == "" {
+			c.Fail("C10-R4", key, pos(c, call), "the expiry removal does not remove the Labels of the label value whose expiry was examined")
+			continue
+		}
+		isElemExpr := func(e ast.Expr, at ast.Node) bool { return e != nil && mxCanon(cb, e, at) == elem }
+		isExpiry := func(e ast.Expr, at ast.Node) bool {
+			sel, ok := mxIsField(info, mxResolveAt(cb, e, at), "metrics.LabelValue", "Expiry")
+			return ok && isElemExpr(sel.X, at)
+		}
+		// age: T.Sub(elem.Value.TimeUTC())
+		isAge := func(e ast.Expr, at ast.Node) (ast.Expr, bool) {
+			sub, ok := mxResolveAt(cb, e, at).(*ast.CallExpr)
+			if !ok || cb.CalleeID(sub) != "time.Time.Sub" || len(sub.Args) != 1 {
+				return nil, false
+			}
+			if !isElemExpr(mxTimeOf(cb, sub.Args[0], at), at) {
+				return nil, false
+			}
+			return core.RecvExpr(sub), true
+		}
+		// deadline: elem.Value.TimeUTC().Add(elem.Expiry)
+		isDeadline := func(e ast.Expr, at ast.Node) bool {
+			add, ok := mxResolveAt(cb, e, at).(*ast.CallExpr)
+			if !ok || cb.CalleeID(add) != "time.Time.Add" || len(add.Args) != 1 {
+				return false
+			}
+			return isElemExpr(mxTimeOf(cb, core.RecvExpr(add), at), at) && isExpiry(add.Args[0], at)
+		}
+		start, back := mxIterStart(g, mxInnermostLoop(cb, call))
+		dom, _ := mxDomEdges(g, start, h.P, back)
+		pred, skip := false, false
+		notStrict, inverted := false, false
+		for _, e := range dom {
+			if cmp, ok := mxCmpOf(e); ok {
+				if oc, ok := cmp.mxOrient(func(x ast.Expr) bool { return isExpiry(x, e.Cond) }); ok {
+					if k, isK := mxConstInt(cb, oc.R); isK && k == 0 {
+						// Expiry op 0
+						if oc.Op == token.GTR || oc.Op == token.NEQ {
+							skip = true
 						}
-						_ = start
-						skip = hasCont
+						continue
 					}
+					if k, isK := mxConstInt(cb, oc.R); isK && k == 1 && oc.Op == token.GEQ {
+						skip = true
+						continue
+					}
+					if now, ok := isAge(oc.R, e.Cond); ok {
+						// Expiry op age
+						switch oc.Op {
+						case token.LSS:
+							pred = true
+							nowUses = append(nowUses, now)
+						case token.LEQ:
+							notStrict = true
+						default:
+							inverted = true
+						}
+					}
+				}
+				continue
+			}
+			// now.After(deadline) / deadline.Before(now)
+			if tc, ok := core.Unparen(e.Cond).(*ast.CallExpr); ok && len(tc.Args) == 1 {
+				id := cb.CalleeID(tc)
+				r := core.RecvExpr(tc)
+				var now ast.Expr
+				switch {
+				case id == "time.Time.After" && isDeadline(tc.Args[0], e.Cond):
+					now = r // now.After(deadline): strict when true
+				case id == "time.Time.Before" && isDeadline(r, e.Cond):
+					now = tc.Args[0] // deadline.Before(now): strict when true
+				case id == "time.Time.Before" && isDeadline(tc.Args[0], e.Cond):
+					// now.Before(deadline): false edge asserts now >= deadline: not strict
+					if !e.True {
+						notStrict = true
+					} else {
+						inverted = true
+					}
+					continue
+				case id == "time.Time.After" && isDeadline(r, e.Cond):
+					// deadline.After(now): false edge asserts deadline <= now: not strict
+					if !e.True {
+						notStrict = true
+					} else {
+						inverted = true
+					}
+					continue
+				default:
+					continue
+				}
+				if e.True {
+					pred = true
+					nowUses = append(nowUses, now)
+				} else {
+					inverted = true
 				}
 			}
 		}
-		c.Verdict(pred && skip && strings.HasSuffix(nospace(exprStr(call.Args[0])), ".Labels"), "C10-R4", key, pos(c, call), "Expiry>0 and now-lastUpdate > Expiry (strict)", fmt.Sprintf("the expiry removal is not guarded by `Expiry > 0` (found=%v) and `now.Sub(last update) > Expiry` strictly (found=%v): data without a delayed delete, or data exactly Expiry old, are removed — or expired data are kept", skip, pred))
+		detail := ""
+		switch {
+		case pred && skip:
+		case notStrict && !pred:
+			detail = "the comparison of the age with Expiry is not strict: a datum exactly Expiry old is removed, the statement says \"more than\""
+		case inverted && !pred:
+			detail = "the comparison of the age with Expiry is inverted: fresh data are removed and expired data kept"
+		}
+		c.Verdict(pred && skip, "C10-R4", key, pos(c, call), "Expiry>0 and now-lastUpdate > Expiry (strict)", fmt.Sprintf("the expiry removal is not guarded by `Expiry > 0` (found=%v) and `now.Sub(last update) > Expiry` strictly (found=%v): data without a delayed delete, or data exactly Expiry old, are removed — or expired data are kept. %s", skip, pred, detail))
 	}
 	{
+		// `now`: one time.Now() in Gc itself, outside literals and loops, assigned to the variable the age comparison uses
 		gg := gcf.Graph()
+		total := 0
+		for _, f := range append([]*core.Func{gcf, cb}, gcf.Lits...) {
+			if f == cb && (cb == gcf || cb.Decl == gcf.Decl) {
+				continue
+			}
+			core.InspectNoLit(f.Body, func(n ast.Node) bool {
+				if call, ok := n.(*ast.CallExpr); ok && f.CalleeID(call) == "time.Now" {
+					total++
+				}
+				return true
+			})
+		}
 		nows := gg.CallsTo("time.Now")
-		okNow := len(nows) == 1
+		okNow := len(nows) == 1 && total == 1
+		why := fmt.Sprintf("%d time.Now() calls in Gc outside its callback, %d in all", len(nows), total)
+		var nowObj types.Object
 		if okNow {
-			as := assignOf(gcf, nows[0].N.(*ast.CallExpr))
-			okNow = as != nil && exprStr(as.Lhs[0]) == "now"
-			// not inside the callback
-			for _, h := range g.CallsTo("time.Now") {
-				_ = h
-				okNow = false
+			call := nows[0].N.(*ast.CallExpr)
+			if mxInnermostLoop(gcf, call) != nil {
+				okNow, why = false, "time.Now() is evaluated inside a loop"
+			} else if as := assignOf(gcf, call); as != nil && len(as.Lhs) == 1 {
+				nowObj = identObj(gcf.Info(), as.Lhs[0])
+			} else {
+				ast.Inspect(gcf.Body, func(n ast.Node) bool {
+					if vs, ok := n.(*ast.ValueSpec); ok && len(vs.Values) == 1 && len(vs.Names) == 1 && core.Unparen(vs.Values[0]) == ast.Expr(call) {
+						nowObj = gcf.Info().Defs[vs.Names[0]]
+					}
+					return true
+				})
+			}
+			if okNow && nowObj == nil {
+				okNow, why = false, "the result of time.Now() is not kept in a variable"
 			}
 		}
-		c.Verdict(okNow, "C10-R4", storeGc+"|now once", pos(c, gcf.Decl), "one time.Now() before the iteration", "the GC pass does not use a single instant T for all data")
+		undec := ""
+		if okNow {
+			// each age comparison's `now` is that variable (possibly passed down as a parameter)
+			for _, u := range nowUses {
+				o := identObj(info, core.Unparen(u))
+				if o != nowObj {
+					if pi, isParam := mxPureParam(cb, o); isParam && pi >= 0 {
+						sites := mxCallSites(c.Prog, cb)
+						o = nil
+						if len(sites) == 1 {
+							if a := mxArgFor(sites[0].Call, cb, pi); a != nil {
+								o = identObj(sites[0].In.Info(), core.Unparen(a))
+							}
+						}
+					}
+				}
+				if o != nowObj {
+					undec = "the time compared with the last update is not recognisably the variable holding Gc's single time.Now()"
+				}
+			}
+			if len(mxDefsOf(gcf)[nowObj]) != 1 {
+				okNow, why = false, "the variable holding time.Now() is assigned again"
+			}
+		}
+		switch {
+		case !okNow:
+			c.Fail("C10-R4", storeGc+"|now once", pos(c, gcf.Decl), "the GC pass does not use a single instant T for all data: "+why)
+		case undec != "":
+			c.Undecided("C10-R4", storeGc+"|now once", pos(c, gcf.Decl), undec)
+		default:
+			c.Ok("C10-R4", storeGc+"|now once", pos(c, gcf.Decl), "one time.Now() before the iteration")
+		}
 	}
 	c.Floor("C10-R4", 2)
 
-	c.Rule("C10-R5", "INDEX: in the forward scan `for i := 0; i < len(s); i++` every path from the removal of element i to the loop's post statement passes `i--`")
+	c.Rule("C10-R5", "INDEX: in a forward index scan of the slice being spliced, no path leads from the removal of element i to an increment of i without passing a decrement of i (a backward scan or a scan over a fresh copy needs no step back); the scan's bound is the current length of the slice")
 	for i, h := range expCalls {
-		var loop *ast.ForStmt
-		core.InspectNoLit(cb.Body, func(n ast.Node) bool {
-			if fs, ok := n.(*ast.ForStmt); ok && fs.Pos() <= h.N.Pos() && h.N.End() <= fs.End() {
-				loop = fs
-			}
-			return true
-		})
 		key := fmt.Sprintf("%s|scan#%d", cb.Key, i+1)
-		if loop == nil {
-			c.Undecided("C10-R5", key, pos(c, h.N), "expiry removal not inside an index loop")
+		loopStmt := mxInnermostLoop(cb, h.N)
+		if loopStmt == nil {
+			c.Undecided("C10-R5", key, pos(c, h.N), "expiry removal not inside a loop")
 			continue
 		}
-		iv := ""
-		if as, ok := loop.Init.(*ast.AssignStmt); ok {
-			iv = exprStr(as.Lhs[0])
-		}
-		decs := g.Find(func(n ast.Node) bool {
-			d, ok := n.(*ast.IncDecStmt)
-			return ok && d.Tok == token.DEC && exprStr(d.X) == iv && d.Pos() > loop.Body.Pos() && d.End() < loop.Body.End()
-		})
-		var postP []core.Point
-		if loop.Post != nil {
-			if p, ok := g.PointOf(loop.Post); ok {
-				postP = append(postP, p)
+		var ml *mxLoop
+		for _, l := range mxLoops(cb) {
+			if l.Stmt == loopStmt {
+				ml = l
 			}
 		}
+		if ml == nil {
+			c.Undecided("C10-R5", key, pos(c, h.N), "the loop around the expiry removal is not a recognised scan of the metric's label values")
+			continue
+		}
+		if !ml.Alias {
+			c.Ok("C10-R5", key, pos(c, loopStmt), "the scan walks a fresh copy of the slice: removals do not move its elements")
+			c.Ok("C10-R5", key+"|bound", pos(c, loopStmt), "bound of a fresh copy")
+			continue
+		}
+		loop, isFor := loopStmt.(*ast.ForStmt)
+		if !isFor {
+			// a range loop over the live slice: decided by R7
+			c.Note("C10-R5", key, pos(c, loopStmt), "range loop over the live slice: decided by C10-R7")
+			c.Note("C10-R5", key+"|bound", pos(c, loopStmt), "range loop over the live slice: decided by C10-R7")
+			continue
+		}
+		iv := ml.Idx
+		isIV := func(e ast.Expr) bool { return identObj(info, e) == iv }
+		step := func(n ast.Node) int { // +1, -1, or 0 for a statement changing iv
+			switch s := n.(type) {
+			case *ast.IncDecStmt:
+				if isIV(s.X) {
+					if s.Tok == token.INC {
+						return 1
+					}
+					return -1
+				}
+			case *ast.AssignStmt:
+				if len(s.Lhs) == 1 && len(s.Rhs) == 1 && isIV(s.Lhs[0]) && isConst(s.Rhs[0], 1) {
+					switch s.Tok {
+					case token.ADD_ASSIGN:
+						return 1
+					case token.SUB_ASSIGN:
+						return -1
+					}
+				}
+			}
+			return 0
+		}
+		inLoop := func(n ast.Node) bool {
+			return loop.Pos() <= n.Pos() && n.End() <= loop.End() && !(loop.Init != nil && loop.Init.Pos() <= n.Pos() && n.End() <= loop.Init.End())
+		}
+		incs := g.Find(func(n ast.Node) bool { return inLoop(n) && step(n) == 1 })
+		decs := g.Find(func(n ast.Node) bool { return inLoop(n) && step(n) == -1 })
+		postDec := loop.Post != nil && step(loop.Post) == -1
+		var initRhs ast.Expr
+		if as, ok := loop.Init.(*ast.AssignStmt); ok && len(as.Rhs) == 1 {
+			initRhs = as.Rhs[0]
+		}
+		if postDec {
+			// backward scan: for i := len(s)-1; i >= 0; i--
+			okInit := false
+			if be, ok := mxResolveAt(cb, initRhs, loop.Init).(*ast.BinaryExpr); ok && be.Op == token.SUB && isLenLV(be.X, loop.Init) && isConst(be.Y, 1) {
+				okInit = true
+			}
+			okCond := false
+			if be, ok := core.Unparen(loop.Cond).(*ast.BinaryExpr); ok {
+				if oc, ok := (mxCmp{be.X, be.Y, be.Op}).mxOrient(isIV); ok {
+					okCond = (oc.Op == token.GEQ && isConst(oc.R, 0)) || (oc.Op == token.GTR && isConst(oc.R, -1))
+				}
+			}
+			if okInit && okCond && len(incs) == 0 && len(decs) == 1 {
+				c.Ok("C10-R5", key, pos(c, loop), "backward scan: the elements that move were already examined")
+				c.Ok("C10-R5", key+"|bound", pos(c, loop), "from the last index down to 0")
+			} else {
+				c.Undecided("C10-R5", key, pos(c, loop), "the scan steps its index down but is not the recognised backward scan `for i := len(s)-1; i >= 0; i--`")
+			}
+			continue
+		}
+		if len(incs) == 0 {
+			c.Undecided("C10-R5", key, pos(c, loop), "no increment of the scan index found")
+			continue
+		}
 		from := h.P
-		tr, found := pathAvoiding(g, &from, postP, core.HitPoints(decs))
-		// but the error-return path after a failed removal is fine (it leaves)
-		c.Verdict(!found && len(postP) == 1, "C10-R5", key, pos(c, loop), "i-- after removing element i", "after removing element i the scan advances without stepping back: the element that moved into position i is skipped (an expired datum survives the pass)", tr...)
-		okShape := nospace(exprStr(loop.Cond)) == iv+"<len(m.LabelValues)"
-		c.Verdict(okShape, "C10-R5", key+"|bound", pos(c, loop), "re-evaluated length bound", "the scan's bound is not the current length of the slice being spliced")
+		_, backEdge := mxIterStart(g, loop)
+		trb, found := g.Search(core.Query{From: &from, Goal: core.At(core.HitPoints(incs)...), Avoid: core.At(core.HitPoints(decs)...), AvoidEdge: backEdge})
+		tr := g.Trail(trb)
+		c.Verdict(!found, "C10-R5", key, pos(c, loop), "the index is not advanced past the slot the removal refilled", "after removing element i the scan advances without stepping back: the element that moved into position i is skipped (an expired datum survives the pass)", tr...)
+		if v, ok := mxConstInt(cb, initRhs); initRhs != nil && ok && v != 0 {
+			c.Fail("C10-R5", key+"|bound", pos(c, loop), fmt.Sprintf("the scan's bound is not the current length of the slice being spliced: the scan starts at index %d, the data before it are never examined", v))
+			continue
+		}
+		// the bound: i < len(s), re-evaluated
+		verdict, why := "undecided", "the scan's condition is not a comparison of the index with the slice's length"
+		if be, ok := core.Unparen(loop.Cond).(*ast.BinaryExpr); ok {
+			if oc, ok := (mxCmp{be.X, be.Y, be.Op}).mxOrient(isIV); ok {
+				direct := false
+				if call, ok := core.Unparen(oc.R).(*ast.CallExpr); ok && cb.CalleeID(call) == "builtin.len" && len(call.Args) == 1 && isLV(call.Args[0]) {
+					direct = true
+				}
+				switch {
+				case direct && (oc.Op == token.LSS || oc.Op == token.NEQ):
+					verdict = "ok"
+				case direct:
+					verdict, why = "fail", "the scan's condition lets the index reach the slice's length"
+				case isLenLV(oc.R, loop.Cond):
+					verdict, why = "fail", "the length was taken before the loop: after a removal the index runs past the end of the shortened slice"
+				}
+			}
+		}
+		switch verdict {
+		case "ok":
+			c.Ok("C10-R5", key+"|bound", pos(c, loop), "re-evaluated length bound")
+		case "fail":
+			c.Fail("C10-R5", key+"|bound", pos(c, loop), "the scan's bound is not the current length of the slice being spliced: "+why)
+		default:
+			c.Undecided("C10-R5", key+"|bound", pos(c, loop), why)
+		}
 	}
 	c.Floor("C10-R5", 2)
 
 	c.Rule("C10-R6", "WRITE-SET: the fields of Store/Metric/LabelValue that the GC callback and the functions it calls can assign are exactly Metric.LabelValues and Metric.labelValuesMap")
 	{
 		ws := map[string]bool{}
-		fs := append([]*core.Func{}, closureFrom(c.Prog.FuncOf[cb.Decl])...)
+		fs := append([]*core.Func{}, closureFrom(c.Prog.FuncOf[gcf.Decl])...)
 		for _, f := range fs {
 			if core.Rel(f.Pkg.PkgPath) != "internal/metrics" {
 				continue
 			}
-			if f.Key == storeGc {
-				// only the callback and its callees matter; Gc itself assigns nothing
-			}
 			for k := range metricFieldWrites(f) {
-				// restrict to functions reachable from the callback: Gc's closure includes Range
 				ws[k] = true
 			}
 		}
@@ -656,7 +1654,7 @@ func c10(c *core.Check) {
 		}
 		c.Verdict(len(extra) == 0 && ws["Metric.LabelValues"], "C10-R6", storeGc+"|write set", pos(c, gcf.Decl), "only the slice/map pair", "a GC pass can also assign "+strings.Join(extra, ", ")+": something other than the removed data changes")
 	}
-	for _, f := range closureFrom(c.Prog.FuncOf[cb.Decl]) {
+	for _, f := range closureFrom(c.Prog.FuncOf[gcf.Decl]) {
 		if core.Rel(f.Pkg.PkgPath) != "internal/metrics" {
 			continue
 		}
@@ -718,6 +1716,285 @@ func c10(c *core.Check) {
 	}
 	c.Floor("C10-R7", 2)
 }
+
+// mxFoldCandidate finds the candidate of a fold: a variable declared outside
+// the loop that is assigned the current element inside it, with the CFG points of those assignments.
+func mxFoldCandidate(f *core.Func, loop *mxLoop) (best types.Object, upd []core.Point) {
+	info := f.Info()
+	g := f.Graph()
+	ast.Inspect(loop.Body, func(n ast.Node) bool {
+		as, ok := n.(*ast.AssignStmt)
+		if !ok || as.Tok != token.ASSIGN || len(as.Lhs) != len(as.Rhs) {
+			return true
+		}
+		for i := range as.Lhs {
+			if !loop.isElem(as.Rhs[i]) {
+				continue
+			}
+			o := identObj(info, as.Lhs[i])
+			if o == nil || (loop.Stmt.Pos() <= o.Pos() && o.Pos() <= loop.Stmt.End()) {
+				continue
+			}
+			if best == nil || best == o {
+				best = o
+				if p, ok := g.PointOf(as); ok {
+					upd = append(upd, p)
+				}
+			}
+		}
+		return true
+	})
+	return
+}
+
+// mxFoldTimes finds the variables that always hold the candidate's time: every
+// assignment to them stores the current element's time in the statement (or
+// the block) that makes the element the candidate.
+func mxFoldTimes(f *core.Func, loop *mxLoop, best types.Object) map[types.Object]bool {
+	info := f.Info()
+	// the blocks (and statements) that update the candidate
+	updStmts := map[ast.Node]bool{}
+	updBlocks := map[*ast.BlockStmt]bool{}
+	ast.Inspect(loop.Body, func(n ast.Node) bool {
+		if blk, ok := n.(*ast.BlockStmt); ok {
+			for _, st := range blk.List {
+				if as, ok := st.(*ast.AssignStmt); ok && as.Tok == token.ASSIGN && len(as.Lhs) == len(as.Rhs) {
+					for i := range as.Lhs {
+						if identObj(info, as.Lhs[i]) == best && loop.isElem(as.Rhs[i]) {
+							updStmts[as] = true
+							updBlocks[blk] = true
+						}
+					}
+				}
+			}
+		}
+		return true
+	})
+	inUpdBlock := func(n ast.Node) bool {
+		if updStmts[n] {
+			return true
+		}
+		for blk := range updBlocks {
+			for _, st := range blk.List {
+				if st == n {
+					return true
+				}
+			}
+		}
+		return false
+	}
+	out := map[types.Object]bool{}
+	for o, sites := range mxDefsOf(f) {
+		if o == best || !strings.HasSuffix(o.Type().String(), "time.Time") {
+			continue
+		}
+		okAll, n := true, 0
+		for _, s := range sites {
+			if s.rhs == nil && !s.opaque {
+				continue // zero-value declaration
+			}
+			n++
+			if s.opaque || s.n != 1 || !inUpdBlock(s.node) {
+				okAll = false
+				break
+			}
+			x := mxTimeOf(f, s.rhs, s.node)
+			if x == nil || !loop.isElem(x) {
+				okAll = false
+				break
+			}
+		}
+		if okAll && n > 0 && !(loop.Stmt.Pos() <= o.Pos() && o.Pos() <= loop.Stmt.End()) {
+			out[o] = true
+		}
+	}
+	return out
+}
+
+// mxFoldVerdict evaluates the control flow of an arg-min fold's loop body on
+// the four cases — no candidate yet, element older than the candidate, equally
+// old, newer — by walking the CFG from the start of the body and deciding each
+// condition from the case; it must reach the candidate update in the first
+// two, may in the third, must not in the fourth.
+func mxFoldVerdict(f *core.Func, loop *mxLoop, best types.Object, upd []core.Point) (verdict, why string) {
+	g := f.Graph()
+	info := f.Info()
+	head, body, _ := loopBlocks(g, loop.Stmt)
+	if head == nil || body == nil {
+		return "undecided", "loop blocks not found"
+	}
+	isUpd := map[core.Point]bool{}
+	for _, p := range upd {
+		isUpd[p] = true
+	}
+	isBest := func(e ast.Expr) bool { return e != nil && identObj(info, core.Unparen(e)) == best }
+	// who: "e" the element, "b" the candidate, "" unknown
+	bestTimes := mxFoldTimes(f, loop, best)
+	who := func(e ast.Expr, at ast.Node) string {
+		if o := identObj(info, core.Unparen(e)); o != nil && bestTimes[o] {
+			return "b"
+		}
+		x := mxTimeOf(f, e, at)
+		switch {
+		case x == nil:
+			return ""
+		case isBest(x):
+			return "b"
+		case loop.isElem(x):
+			return "e"
+		}
+		return ""
+	}
+	// eval returns the value of a condition in a case, or "?"
+	var eval func(cond ast.Expr, sc string) string
+	eval = func(cond ast.Expr, sc string) string {
+		cond = core.Unparen(cond)
+		b2s := func(b bool) string {
+			if b {
+				return "t"
+			}
+			return "f"
+		}
+		if u, ok := cond.(*ast.UnaryExpr); ok && u.Op == token.NOT {
+			switch v := eval(u.X, sc); v {
+			case "t":
+				return "f"
+			case "f":
+				return "t"
+			default:
+				return v
+			}
+		}
+		if be, ok := cond.(*ast.BinaryExpr); ok && (be.Op == token.LAND || be.Op == token.LOR) {
+			l := eval(be.X, sc)
+			if l != "t" && l != "f" {
+				return l
+			}
+			if (be.Op == token.LAND) == (l == "f") {
+				return l // short circuit
+			}
+			return eval(be.Y, sc)
+		}
+		if be, ok := cond.(*ast.BinaryExpr); ok && (be.Op == token.EQL || be.Op == token.NEQ) {
+			var other ast.Expr
+			if isNilIdent(info, be.Y) {
+				other = be.X
+			} else if isNilIdent(info, be.X) {
+				other = be.Y
+			}
+			if other != nil && isBest(other) {
+				return b2s((sc == "none") == (be.Op == token.EQL))
+			}
+			return "?"
+		}
+		if call, ok := cond.(*ast.CallExpr); ok && len(call.Args) == 1 {
+			id := f.CalleeID(call)
+			if id != "time.Time.Before" && id != "time.Time.After" && id != "time.Time.Equal" {
+				return "?"
+			}
+			x, y := who(core.RecvExpr(call), cond), who(call.Args[0], cond)
+			if x == "" || y == "" || x == y {
+				return "?"
+			}
+			if sc == "none" {
+				return "nil" // the candidate's time is read while there is none
+			}
+			// relation of the element to the candidate in this case: older / equal / newer
+			switch id {
+			case "time.Time.Equal":
+				return b2s(sc == "equal")
+			case "time.Time.Before":
+				if x == "e" {
+					return b2s(sc == "older")
+				}
+				return b2s(sc == "newer")
+			default: // After
+				if x == "e" {
+					return b2s(sc == "newer")
+				}
+				return b2s(sc == "older")
+			}
+		}
+		return "?"
+	}
+	// the candidate starts out nil?
+	startsNil := false
+	sites := mxDefsOf(f)[best]
+	for _, s := range sites {
+		if s.node.End() <= loop.Stmt.Pos() {
+			startsNil = s.rhs == nil || isNilIdent(info, s.rhs)
+		}
+	}
+	run := func(sc string) string { // "replace", "keep", "?…"
+		b := body
+		for steps := 0; steps < 200; steps++ {
+			for i := range b.Nodes {
+				if isUpd[core.Point{B: b, I: i}] {
+					return "replace"
+				}
+			}
+			if b == head {
+				return "keep"
+			}
+			switch len(b.Succs) {
+			case 0:
+				return "keep" // leaves the function: reported by the early-exit check
+			case 1:
+				b = b.Succs[0]
+			case 2:
+				if len(b.Nodes) == 0 {
+					return "?an unconditioned branch"
+				}
+				cond, ok := b.Nodes[len(b.Nodes)-1].(ast.Expr)
+				if !ok {
+					return "?a branch that is not a condition"
+				}
+				switch eval(cond, sc) {
+				case "t":
+					b = b.Succs[0]
+				case "f":
+					b = b.Succs[1]
+				case "nil":
+					return "?the candidate's time is read while there is no candidate (" + exprStr(cond) + ")"
+				default:
+					return "?unrecognised comparison " + nospace(exprStr(cond))
+				}
+			default:
+				return "?a multi-way branch"
+			}
+			if b == head {
+				return "keep"
+			}
+		}
+		return "?no end of the iteration found"
+	}
+	res := map[string]string{}
+	for _, sc := range []string{"none", "older", "equal", "newer"} {
+		if sc == "none" && !startsNil {
+			res[sc] = "n/a"
+			continue
+		}
+		res[sc] = run(sc)
+		if strings.HasPrefix(res[sc], "?") {
+			return "undecided", "case `" + sc + "`: " + res[sc][1:]
+		}
+	}
+	if !startsNil {
+		return "undecided", "the candidate does not start out nil: initialisation not recognised"
+	}
+	summary := fmt.Sprintf("(%s, %s, %s, %s)", res["none"], res["older"], res["equal"], res["newer"])
+	switch {
+	case res["newer"] == "replace":
+		return "fail", "the candidate is replaced when the element is NEWER: the newest datum is evicted " + summary
+	case res["older"] == "keep":
+		return "fail", "an element older than the candidate does not replace it: the datum evicted is not the oldest " + summary
+	case res["none"] == "keep":
+		return "fail", "the first element never becomes the candidate: nothing is selected " + summary
+	}
+	return "ok", summary
+}
+
+var _ = cfg.KindBody
 
 // isSortCall reports whether call is an in-place sort of its first argument.
 func isSortCall(f *core.Func, call *ast.CallExpr) bool {
@@ -805,23 +2082,15 @@ func removers(c *core.Check) map[*core.Func]bool {
 		if core.Rel(f.Pkg.PkgPath) != "internal/metrics" {
 			return false
 		}
-		isLV := lvAliases(f)
-		hit := false
-		ast.Inspect(f.Body, func(n ast.Node) bool {
-			if as, ok := n.(*ast.AssignStmt); ok && len(as.Lhs) == 1 && len(as.Rhs) == 1 && isLV(as.Lhs[0]) {
-				// append(s[:i], s[i+1:]...) or any reslice that drops elements
-				if call, ok := core.Unparen(as.Rhs[0]).(*ast.CallExpr); ok && f.CalleeID(call) == "builtin.append" && len(call.Args) > 0 {
-					if _, isSlice := core.Unparen(call.Args[0]).(*ast.SliceExpr); isSlice {
-						hit = true
-					}
-				}
-				if _, isSlice := core.Unparen(as.Rhs[0]).(*ast.SliceExpr); isSlice {
-					hit = true
-				}
+		if splicesLabelValues(f) {
+			return true
+		}
+		for _, lf := range f.Lits {
+			if splicesLabelValues(lf) {
+				return true
 			}
-			return !hit
-		})
-		return hit
+		}
+		return false
 	})
 }
 
@@ -853,24 +2122,7 @@ func findInClosure(root *core.Func, pred func(*core.Func) bool) *core.Func {
 }
 
 // splicesLabelValues reports whether f itself assigns a shortened slice to a Metric's LabelValues.
-func splicesLabelValues(f *core.Func) bool {
-	isLV := lvAliases(f)
-	hit := false
-	core.InspectNoLit(f.Body, func(n ast.Node) bool {
-		if as, ok := n.(*ast.AssignStmt); ok && len(as.Lhs) == 1 && len(as.Rhs) == 1 && isLV(as.Lhs[0]) {
-			if call, ok := core.Unparen(as.Rhs[0]).(*ast.CallExpr); ok && f.CalleeID(call) == "builtin.append" && len(call.Args) > 0 {
-				if _, isSlice := core.Unparen(call.Args[0]).(*ast.SliceExpr); isSlice {
-					hit = true
-				}
-			}
-			if _, isSlice := core.Unparen(as.Rhs[0]).(*ast.SliceExpr); isSlice {
-				hit = true
-			}
-		}
-		return !hit
-	})
-	return hit
-}
+func splicesLabelValues(f *core.Func) bool { return len(mxSplices(f)) > 0 }
 
 // mergedFieldWrites is metricFieldWrites over root and what it reaches inside internal/metrics.
 func mergedFieldWrites(root *core.Func) map[string][]ast.Node {
@@ -924,4 +2176,1391 @@ func isMapLookupOk(f *core.Func, cond ast.Expr, field string) bool {
 		return true
 	})
 	return found
+}
+
+// ---------------------------------------------------------------------------
+// Resolution helpers (mx…): the rules above compare program structure, not
+// spelling.  Locals are followed to their reaching definition, parameters to
+// the unique call site, conditions are read off the CFG edges (so if/else,
+// early return, switch, `!`, `&&`/`||` and either operand order are the same
+// thing), and fields are identified through go/types selections.
+// ---------------------------------------------------------------------------
+
+// mxDefSite is one definition of a local variable.
+type mxDefSite struct {
+	rhs    ast.Expr // defining expression; nil for a zero-value declaration
+	idx, n int      // the variable is the idx-th of n left-hand sides of rhs
+	node   ast.Node // the defining statement / spec
+	opaque bool     // op-assignment, ++/--, &x, range variable: not a plain value definition
+}
+
+var mxDefCache = map[*ast.FuncDecl]map[types.Object][]mxDefSite{}
+
+// mxDefsOf collects the definition sites of every variable assigned inside the
+// declaration enclosing f (function literals included, so captured variables
+// resolve too).
+func mxDefsOf(f *core.Func) map[types.Object][]mxDefSite {
+	if m, ok := mxDefCache[f.Decl]; ok {
+		return m
+	}
+	info := f.Info()
+	m := map[types.Object][]mxDefSite{}
+	add := func(e ast.Expr, s mxDefSite) {
+		if o := identObj(info, e); o != nil {
+			m[o] = append(m[o], s)
+		}
+	}
+	ast.Inspect(f.Decl.Body, func(n ast.Node) bool {
+		switch x := n.(type) {
+		case *ast.AssignStmt:
+			for i, l := range x.Lhs {
+				switch {
+				case x.Tok != token.DEFINE && x.Tok != token.ASSIGN:
+					add(l, mxDefSite{node: x, opaque: true})
+				case len(x.Lhs) == len(x.Rhs):
+					add(l, mxDefSite{rhs: x.Rhs[i], n: 1, node: x})
+				case len(x.Rhs) == 1:
+					add(l, mxDefSite{rhs: x.Rhs[0], idx: i, n: len(x.Lhs), node: x})
+				}
+			}
+		case *ast.IncDecStmt:
+			add(x.X, mxDefSite{node: x, opaque: true})
+		case *ast.ValueSpec:
+			for i, nm := range x.Names {
+				switch {
+				case len(x.Values) == len(x.Names):
+					add(nm, mxDefSite{rhs: x.Values[i], n: 1, node: x})
+				case len(x.Values) == 1:
+					add(nm, mxDefSite{rhs: x.Values[0], idx: i, n: len(x.Names), node: x})
+				default:
+					add(nm, mxDefSite{node: x, n: 1}) // zero value
+				}
+			}
+		case *ast.RangeStmt:
+			if x.Key != nil {
+				add(x.Key, mxDefSite{node: x, opaque: true})
+			}
+			if x.Value != nil {
+				add(x.Value, mxDefSite{node: x, opaque: true})
+			}
+		case *ast.UnaryExpr:
+			if x.Op == token.AND {
+				add(x.X, mxDefSite{node: x, opaque: true})
+			}
+		}
+		return true
+	})
+	mxDefCache[f.Decl] = m
+	return m
+}
+
+// mxLocalVar returns the object of e when e names a variable that is not a field and not package-level.
+func mxLocalVar(f *core.Func, e ast.Expr) *types.Var {
+	v, ok := identObj(f.Info(), e).(*types.Var)
+	if !ok || v.IsField() || v.Parent() == nil || v.Parent() == v.Pkg().Scope() {
+		return nil
+	}
+	return v
+}
+
+// mxReaching lists the definitions of obj that can reach the node `at` in f's
+// CFG (all definitions when `at` is nil or they lie in another function body).
+func mxReaching(f *core.Func, obj types.Object, at ast.Node) []mxDefSite {
+	sites := mxDefsOf(f)[obj]
+	if len(sites) <= 1 || at == nil {
+		return sites
+	}
+	g := f.Graph()
+	use, ok := g.PointOf(at)
+	if !ok {
+		return sites
+	}
+	var pts []core.Point
+	for _, s := range sites {
+		var p core.Point
+		found := false
+		switch n := s.node.(type) {
+		case *ast.RangeStmt:
+			// the loop block holds the key/value nodes
+			if n.Key != nil {
+				p, found = g.PointOf(n.Key)
+			}
+			if !found && n.Value != nil {
+				p, found = g.PointOf(n.Value)
+			}
+		default:
+			p, found = g.PointOf(s.node)
+		}
+		if !found {
+			return sites // a definition in another body (captured variable): no flow information
+		}
+		pts = append(pts, p)
+	}
+	var out []mxDefSite
+	for i, s := range sites {
+		var others []core.Point
+		for j, p := range pts {
+			if j != i && p != pts[i] {
+				others = append(others, p)
+			}
+		}
+		from := pts[i]
+		if from == use {
+			// `x = f(x)`: the use inside its own definition sees the other definitions
+			continue
+		}
+		if _, ok := g.Search(core.Query{From: &from, Goal: core.At(use), Avoid: core.At(others...)}); ok {
+			out = append(out, s)
+		}
+	}
+	if len(out) == 0 {
+		return sites
+	}
+	return out
+}
+
+// mxResolveAt follows e, while it is a local variable with exactly one plain
+// definition reaching `at`, to the defining expression.
+func mxResolveAt(f *core.Func, e ast.Expr, at ast.Node) ast.Expr {
+	for i := 0; i < 8; i++ {
+		e = core.Unparen(e)
+		v := mxLocalVar(f, e)
+		if v == nil {
+			return e
+		}
+		sites := mxReaching(f, v, at)
+		if len(sites) != 1 || sites[0].opaque || sites[0].rhs == nil || sites[0].n != 1 {
+			return e
+		}
+		if sites[0].rhs == e {
+			return e
+		}
+		e = sites[0].rhs
+		at = sites[0].node
+	}
+	return e
+}
+
+// mxResolve is mxResolveAt without a use position (every definition counts).
+func mxResolve(f *core.Func, e ast.Expr) ast.Expr { return mxResolveAt(f, e, nil) }
+
+// mxCanon renders e with locals replaced by their definitions, so that two
+// spellings of the same value inside one function compare equal.
+func mxCanon(f *core.Func, e ast.Expr, at ast.Node) string {
+	var rec func(e ast.Expr, depth int) string
+	rec = func(e ast.Expr, depth int) string {
+		if e == nil {
+			return ""
+		}
+		if depth > 12 {
+			return nospace(exprStr(e))
+		}
+		e = mxResolveAt(f, e, at)
+		switch x := e.(type) {
+		case *ast.Ident:
+			return x.Name
+		case *ast.SelectorExpr:
+			return rec(x.X, depth+1) + "." + x.Sel.Name
+		case *ast.IndexExpr:
+			return rec(x.X, depth+1) + "[" + rec(x.Index, depth+1) + "]"
+		case *ast.StarExpr:
+			return "*" + rec(x.X, depth+1)
+		case *ast.UnaryExpr:
+			return x.Op.String() + rec(x.X, depth+1)
+		case *ast.BinaryExpr:
+			return "(" + rec(x.X, depth+1) + x.Op.String() + rec(x.Y, depth+1) + ")"
+		case *ast.CallExpr:
+			s := rec(x.Fun, depth+1) + "("
+			for i, a := range x.Args {
+				if i > 0 {
+					s += ","
+				}
+				s += rec(a, depth+1)
+			}
+			if x.Ellipsis.IsValid() {
+				s += "..."
+			}
+			return s + ")"
+		case *ast.SliceExpr:
+			return rec(x.X, depth+1) + "[" + rec(x.Low, depth+1) + ":" + rec(x.High, depth+1) + "]"
+		}
+		return nospace(exprStr(e))
+	}
+	return rec(e, 0)
+}
+
+// mxPureParam reports whether obj is a parameter (or the receiver) of the
+// declaration f that is never reassigned, with its position (-1 = receiver).
+func mxPureParam(f *core.Func, obj types.Object) (int, bool) {
+	if obj == nil || f.Lit != nil || len(mxDefsOf(f)[obj]) > 0 {
+		return 0, false
+	}
+	info := f.Info()
+	if f.Decl.Recv != nil {
+		for _, fl := range f.Decl.Recv.List {
+			for _, n := range fl.Names {
+				if info.Defs[n] == obj {
+					return -1, true
+				}
+			}
+		}
+	}
+	i := 0
+	for _, fl := range f.Type.Params.List {
+		if len(fl.Names) == 0 {
+			i++
+			continue
+		}
+		for _, n := range fl.Names {
+			if info.Defs[n] == obj {
+				return i, true
+			}
+			i++
+		}
+	}
+	return 0, false
+}
+
+// mxRecvObj is the receiver variable of a method declaration (nil if unnamed).
+func mxRecvObj(f *core.Func) types.Object {
+	if f.Decl.Recv != nil && len(f.Decl.Recv.List) > 0 && len(f.Decl.Recv.List[0].Names) > 0 {
+		return f.Info().Defs[f.Decl.Recv.List[0].Names[0]]
+	}
+	return nil
+}
+
+// mxCallSite is a statically resolved call of a declared function.
+type mxCallSite struct {
+	In   *core.Func
+	Call *ast.CallExpr
+}
+
+// mxCallSites lists the calls of target in the program, attributed to the innermost function body.
+func mxCallSites(p *core.Prog, target *core.Func) []mxCallSite {
+	var out []mxCallSite
+	for _, k := range p.SortedFuncKeys() {
+		f := p.Funcs[k]
+		core.InspectNoLit(f.Body, func(n ast.Node) bool {
+			if lit, ok := n.(*ast.FuncLit); ok && lit != f.Lit {
+				return false
+			}
+			if call, ok := n.(*ast.CallExpr); ok && f.CalleeFunc(call) == target {
+				out = append(out, mxCallSite{f, call})
+			}
+			return true
+		})
+	}
+	return out
+}
+
+// mxArgFor returns the argument expression a call passes for parameter position i (-1 = receiver); nil if it cannot be told.
+func mxArgFor(call *ast.CallExpr, target *core.Func, i int) ast.Expr {
+	if i < 0 {
+		return core.RecvExpr(call)
+	}
+	np := 0
+	variadic := false
+	for _, fl := range target.Type.Params.List {
+		k := len(fl.Names)
+		if k == 0 {
+			k = 1
+		}
+		np += k
+		if _, ok := fl.Type.(*ast.Ellipsis); ok {
+			variadic = true
+		}
+	}
+	if variadic && i == np-1 {
+		if call.Ellipsis.IsValid() && len(call.Args) == np {
+			return call.Args[i]
+		}
+		return nil
+	}
+	if i < len(call.Args) {
+		return call.Args[i]
+	}
+	return nil
+}
+
+// mxIsField reports whether e selects the field `name` of the named struct whose qualified name ends in recvSuffix.
+func mxIsField(info *types.Info, e ast.Expr, recvSuffix, name string) (*ast.SelectorExpr, bool) {
+	sel, ok := core.Unparen(e).(*ast.SelectorExpr)
+	if !ok || sel.Sel.Name != name {
+		return nil, false
+	}
+	s := info.Selections[sel]
+	if s == nil || s.Kind() != types.FieldVal {
+		return nil, false
+	}
+	r := s.Recv()
+	if p, ok := r.(*types.Pointer); ok {
+		r = p.Elem()
+	}
+	// the field may be reached through embedding: use the field's own struct
+	if v, ok := s.Obj().(*types.Var); ok && v.IsField() {
+		if strings.HasSuffix(r.String(), recvSuffix) {
+			return sel, true
+		}
+	}
+	return nil, false
+}
+
+// mxMentionsField is fieldUsed that also looks through locals to their definitions.
+func mxMentionsField(f *core.Func, e ast.Expr, at ast.Node, recvSuffix, name string) bool {
+	info := f.Info()
+	seen := map[ast.Node]bool{}
+	var rec func(e ast.Node, depth int) bool
+	rec = func(e ast.Node, depth int) bool {
+		if e == nil || depth > 6 || seen[e] {
+			return false
+		}
+		seen[e] = true
+		found := false
+		ast.Inspect(e, func(n ast.Node) bool {
+			if found {
+				return false
+			}
+			switch x := n.(type) {
+			case *ast.SelectorExpr:
+				if _, ok := mxIsField(info, x, recvSuffix, name); ok {
+					found = true
+				}
+			case *ast.Ident:
+				if r := mxResolveAt(f, x, at); r != ast.Expr(x) {
+					if rec(r, depth+1) {
+						found = true
+					}
+				}
+			case *ast.CallExpr:
+				if in := mxInlineCond(x, 0); in != nil && rec(in, depth+1) {
+					found = true
+				}
+			}
+			return !found
+		})
+		return found
+	}
+	return rec(e, 0)
+}
+
+// mxEdge is one out-edge of a CFG block that ends in a boolean condition.
+type mxEdge struct {
+	B    *cfg.Block
+	Succ int
+	Cond ast.Expr
+	True bool // the edge taken when Cond holds
+}
+
+// mxCondEdges lists the condition edges of g: go/cfg decomposes `!`, `&&`,
+// `||` and parentheses, and gives if, for and expression-switch cases the same
+// shape (condition as last node, Succs[0] = true, Succs[1] = false).
+func mxCondEdges(g *core.Graph) []mxEdge {
+	info := g.F.Info()
+	tagged := map[ast.Expr]bool{} // case values of switches with a tag are not conditions
+	ast.Inspect(g.F.Body, func(n ast.Node) bool {
+		if sw, ok := n.(*ast.SwitchStmt); ok && sw.Tag != nil {
+			for _, cl := range sw.Body.List {
+				if cc, ok := cl.(*ast.CaseClause); ok {
+					for _, e := range cc.List {
+						tagged[e] = true
+					}
+				}
+			}
+		}
+		return true
+	})
+	var out []mxEdge
+	for _, b := range g.C.Blocks {
+		if !b.Live || len(b.Succs) != 2 || len(b.Nodes) == 0 || b.Kind == cfg.KindRangeLoop {
+			continue
+		}
+		e, ok := b.Nodes[len(b.Nodes)-1].(ast.Expr)
+		if !ok || tagged[e] {
+			continue
+		}
+		et := info.TypeOf(e)
+		if et == nil {
+			continue
+		}
+		if t, ok := et.Underlying().(*types.Basic); !ok || t.Info()&types.IsBoolean == 0 {
+			continue
+		}
+		// go/cfg keeps `a && b`, `a || b` and `!a` as one condition: split the
+		// edge into the atomic facts it asserts (true edge of a conjunction:
+		// every conjunct; false edge of a disjunction: the negation of every
+		// disjunct; `!`: the opposite polarity).  An edge asserting nothing
+		// atomic (true edge of a disjunction) keeps the compound condition.
+		for si, truth := range []bool{true, false} {
+			facts := mxAtoms(e, truth)
+			if len(facts) == 0 {
+				out = append(out, mxEdge{b, si, e, truth})
+			}
+			for _, ft := range facts {
+				out = append(out, mxEdge{b, si, ft.cond, ft.truth})
+			}
+		}
+	}
+	return out
+}
+
+type mxAtom struct {
+	cond  ast.Expr
+	truth bool
+}
+
+// mxAtoms lists the atomic conditions (with polarity) that hold when e evaluates to truth.
+func mxAtoms(e ast.Expr, truth bool) []mxAtom {
+	e = core.Unparen(e)
+	switch x := e.(type) {
+	case *ast.UnaryExpr:
+		if x.Op == token.NOT {
+			return mxAtoms(x.X, !truth)
+		}
+	case *ast.BinaryExpr:
+		switch {
+		case x.Op == token.LAND && truth, x.Op == token.LOR && !truth:
+			return append(mxAtoms(x.X, truth), mxAtoms(x.Y, truth)...)
+		case x.Op == token.LAND || x.Op == token.LOR:
+			return nil
+		}
+	}
+	if in := mxInlineCond(e, 0); in != nil {
+		return mxAtoms(in, truth)
+	}
+	return []mxAtom{{e, truth}}
+}
+
+// mxInlineInfo / mxInlineProg give mxInlineCond access to the loaded program
+// (set by the rule functions before they read conditions).
+var mxInlineProg *core.Prog
+
+// mxInlineCond rewrites a condition that is a call of a same-package predicate
+// helper — a declared function whose body is a single `return <bool expr>` —
+// into that expression with the parameters (and receiver) replaced by the
+// call's arguments, so that an extracted predicate reads like the inline
+// condition.  Only side-effect-free arguments (identifiers, selectors, index
+// expressions) are substituted; otherwise nil is returned.  The type
+// information of the copied nodes is registered alongside the originals'.
+func mxInlineCond(e ast.Expr, depth int) ast.Expr {
+	p := mxInlineProg
+	call, ok := core.Unparen(e).(*ast.CallExpr)
+	if !ok || p == nil || depth > 2 || call.Ellipsis.IsValid() {
+		return nil
+	}
+	var caller *core.Func
+	for _, f := range p.Funcs {
+		if f.Lit == nil && f.Decl.Body != nil && f.Decl.Body.Pos() <= call.Pos() && call.End() <= f.Decl.Body.End() && p.Fset.File(f.Decl.Pos()) == p.Fset.File(call.Pos()) {
+			caller = f
+		}
+	}
+	if caller == nil {
+		return nil
+	}
+	h := caller.CalleeFunc(call)
+	if h == nil || h.Pkg != caller.Pkg || h.Lit != nil || len(h.Body.List) != 1 {
+		return nil
+	}
+	ret, ok := h.Body.List[0].(*ast.ReturnStmt)
+	if !ok || len(ret.Results) != 1 {
+		return nil
+	}
+	info := h.Info()
+	rt := info.TypeOf(ret.Results[0])
+	if rt == nil {
+		return nil
+	}
+	if t, ok := rt.Underlying().(*types.Basic); !ok || t.Info()&types.IsBoolean == 0 {
+		return nil
+	}
+	simple := func(a ast.Expr) bool {
+		okA := true
+		ast.Inspect(a, func(n ast.Node) bool {
+			switch n.(type) {
+			case nil, *ast.Ident, *ast.SelectorExpr, *ast.IndexExpr, *ast.ParenExpr, *ast.StarExpr, *ast.BasicLit:
+			default:
+				okA = false
+			}
+			return okA
+		})
+		return okA
+	}
+	subst := map[types.Object]ast.Expr{}
+	if r := mxRecvObj(h); r != nil {
+		rx := core.RecvExpr(call)
+		if rx == nil || !simple(rx) {
+			return nil
+		}
+		subst[r] = rx
+	}
+	i := 0
+	for _, fl := range h.Type.Params.List {
+		if len(fl.Names) == 0 {
+			i++
+			continue
+		}
+		for _, nm := range fl.Names {
+			if i >= len(call.Args) || !simple(call.Args[i]) {
+				return nil
+			}
+			subst[info.Defs[nm]] = call.Args[i]
+			i++
+		}
+	}
+	for o := range subst {
+		if len(mxDefsOf(h)[o]) > 0 {
+			return nil // a parameter is reassigned
+		}
+	}
+	failed := false
+	var clone func(x ast.Expr) ast.Expr
+	keep := func(old, nw ast.Expr) ast.Expr {
+		if tv, ok := info.Types[old]; ok {
+			info.Types[nw] = tv
+		}
+		return nw
+	}
+	clone = func(x ast.Expr) ast.Expr {
+		switch n := x.(type) {
+		case *ast.Ident:
+			if a, ok := subst[info.Uses[n]]; ok && info.Uses[n] != nil {
+				return a
+			}
+			return n
+		case *ast.BasicLit:
+			return n
+		case *ast.ParenExpr:
+			return keep(n, &ast.ParenExpr{Lparen: n.Lparen, X: clone(n.X), Rparen: n.Rparen})
+		case *ast.SelectorExpr:
+			c := &ast.SelectorExpr{X: clone(n.X), Sel: n.Sel}
+			if s, ok := info.Selections[n]; ok {
+				info.Selections[c] = s
+			}
+			return keep(n, c)
+		case *ast.StarExpr:
+			return keep(n, &ast.StarExpr{Star: n.Star, X: clone(n.X)})
+		case *ast.UnaryExpr:
+			return keep(n, &ast.UnaryExpr{OpPos: n.OpPos, Op: n.Op, X: clone(n.X)})
+		case *ast.BinaryExpr:
+			return keep(n, &ast.BinaryExpr{X: clone(n.X), OpPos: n.OpPos, Op: n.Op, Y: clone(n.Y)})
+		case *ast.IndexExpr:
+			return keep(n, &ast.IndexExpr{X: clone(n.X), Lbrack: n.Lbrack, Index: clone(n.Index), Rbrack: n.Rbrack})
+		case *ast.CallExpr:
+			c := &ast.CallExpr{Fun: clone(n.Fun), Lparen: n.Lparen, Ellipsis: n.Ellipsis, Rparen: n.Rparen}
+			for _, a := range n.Args {
+				c.Args = append(c.Args, clone(a))
+			}
+			return keep(n, c)
+		}
+		failed = true
+		return x
+	}
+	out := clone(ret.Results[0])
+	if failed {
+		return nil
+	}
+	return out
+}
+
+func mxAvoidEdges(es []mxEdge, extra func(*cfg.Block, int) bool) func(*cfg.Block, int) bool {
+	return func(b *cfg.Block, si int) bool {
+		for _, e := range es {
+			if e.B == b && e.Succ == si {
+				return true
+			}
+		}
+		return extra != nil && extra(b, si)
+	}
+}
+
+// mxReachAvoiding searches a path from start (nil = entry) to p that uses none of the edges.
+func mxReachAvoiding(g *core.Graph, start *core.Point, p core.Point, es []mxEdge, extra func(*cfg.Block, int) bool) ([]string, bool) {
+	tr, ok := g.Search(core.Query{From: start, Goal: core.At(p), AvoidEdge: mxAvoidEdges(es, extra)})
+	return g.Trail(tr), ok
+}
+
+// mxDomEdges lists the condition edges that every path from start to p takes.
+// reachable is false when p cannot be reached from start at all.
+func mxDomEdges(g *core.Graph, start *core.Point, p core.Point, extra func(*cfg.Block, int) bool) (dom []mxEdge, reachable bool) {
+	if _, ok := mxReachAvoiding(g, start, p, nil, extra); !ok {
+		return nil, false
+	}
+	for _, e := range mxCondEdges(g) {
+		if _, ok := mxReachAvoiding(g, start, p, []mxEdge{e}, extra); !ok {
+			dom = append(dom, e)
+		}
+	}
+	return dom, true
+}
+
+// mxEdgeTarget is the pseudo point from which a search explores what follows the edge.
+func mxEdgeTarget(e mxEdge) *core.Point { return &core.Point{B: e.B.Succs[e.Succ], I: -1} }
+
+// mxInnermostLoop returns the innermost for/range statement of f (not entering literals) that lexically contains n.
+func mxInnermostLoop(f *core.Func, n ast.Node) ast.Stmt {
+	var loop ast.Stmt
+	core.InspectNoLit(f.Body, func(x ast.Node) bool {
+		switch s := x.(type) {
+		case *ast.ForStmt:
+			if s.Body.Pos() <= n.Pos() && n.End() <= s.Body.End() {
+				loop = s
+			}
+		case *ast.RangeStmt:
+			if s.Body.Pos() <= n.Pos() && n.End() <= s.Body.End() {
+				loop = s
+			}
+		}
+		return true
+	})
+	return loop
+}
+
+// mxIterStart gives the search start and the back-edge filter that confine a
+// path query to one iteration of loop (nil loop: whole function).
+func mxIterStart(g *core.Graph, loop ast.Stmt) (*core.Point, func(*cfg.Block, int) bool) {
+	if loop == nil {
+		return nil, nil
+	}
+	head, body, _ := loopBlocks(g, loop)
+	if head == nil || body == nil {
+		return nil, nil
+	}
+	return &core.Point{B: body, I: -1}, func(b *cfg.Block, si int) bool { return b.Succs[si] == head }
+}
+
+// mxCmp is a comparison asserted by a condition edge, L Op R.
+type mxCmp struct {
+	L, R ast.Expr
+	Op   token.Token
+}
+
+func mxNegOp(op token.Token) token.Token {
+	switch op {
+	case token.EQL:
+		return token.NEQ
+	case token.NEQ:
+		return token.EQL
+	case token.LSS:
+		return token.GEQ
+	case token.GEQ:
+		return token.LSS
+	case token.GTR:
+		return token.LEQ
+	case token.LEQ:
+		return token.GTR
+	}
+	return token.ILLEGAL
+}
+
+func mxFlipOp(op token.Token) token.Token {
+	switch op {
+	case token.LSS:
+		return token.GTR
+	case token.GTR:
+		return token.LSS
+	case token.LEQ:
+		return token.GEQ
+	case token.GEQ:
+		return token.LEQ
+	}
+	return op
+}
+
+// mxCmpOf reads the comparison an edge asserts (the negated operator on the false edge).
+func mxCmpOf(e mxEdge) (mxCmp, bool) {
+	be, ok := core.Unparen(e.Cond).(*ast.BinaryExpr)
+	if !ok || mxNegOp(be.Op) == token.ILLEGAL {
+		return mxCmp{}, false
+	}
+	op := be.Op
+	if !e.True {
+		op = mxNegOp(op)
+	}
+	return mxCmp{be.X, be.Y, op}, true
+}
+
+// mxOrient returns the comparison with the operand satisfying isLeft on the left; ok is false if neither (or both) does.
+func (c mxCmp) mxOrient(isLeft func(ast.Expr) bool) (mxCmp, bool) {
+	l, r := isLeft(c.L), isLeft(c.R)
+	switch {
+	case l && !r:
+		return c, true
+	case r && !l:
+		return mxCmp{c.R, c.L, mxFlipOp(c.Op)}, true
+	}
+	return c, false
+}
+
+// mxLenArg returns X when e (after following locals) is len(X).
+func mxLenArg(f *core.Func, e ast.Expr, at ast.Node) ast.Expr {
+	call, ok := mxResolveAt(f, e, at).(*ast.CallExpr)
+	if ok && f.CalleeID(call) == "builtin.len" && len(call.Args) == 1 {
+		return call.Args[0]
+	}
+	return nil
+}
+
+// mxStringSlice reports whether the type of e is []string.
+func mxStringSlice(info *types.Info, e ast.Expr) bool {
+	t := info.TypeOf(e)
+	if t == nil {
+		return false
+	}
+	s, ok := t.Underlying().(*types.Slice)
+	if !ok {
+		return false
+	}
+	b, ok := s.Elem().Underlying().(*types.Basic)
+	return ok && b.Kind() == types.String
+}
+
+// mxRootObj is the variable at the root of an access path (x, x.f, x.f[i], *x …).
+func mxRootObj(info *types.Info, e ast.Expr) types.Object {
+	for {
+		switch x := core.Unparen(e).(type) {
+		case *ast.Ident:
+			return identObj(info, x)
+		case *ast.SelectorExpr:
+			e = x.X
+		case *ast.IndexExpr:
+			e = x.X
+		case *ast.SliceExpr:
+			e = x.X
+		case *ast.StarExpr:
+			e = x.X
+		default:
+			return nil
+		}
+	}
+}
+
+// ---- arity comparisons ----
+
+// mxArityEdges classifies the condition edges of f that compare the length of
+// a []string rooted at a non-receiver parameter with len(<receiver>.Keys):
+// match edges assert equality, mismatch edges inequality.  A condition on the
+// error returned by a helper that performs such a comparison on what it is
+// passed counts as well (`err == nil` asserts the match).  other counts length
+// comparisons that mention Keys but were not understood.
+func mxArityEdges(c *core.Check, f *core.Func, depth int) (match, mismatch []mxEdge, other int) {
+	info := f.Info()
+	recv := mxRecvObj(f)
+	isKeys := func(e ast.Expr, at ast.Node) bool {
+		x := mxLenArg(f, e, at)
+		if x == nil {
+			return false
+		}
+		sel, ok := mxIsField(info, x, "metrics.Metric", "Keys")
+		return ok && recv != nil && identObj(info, mxResolveAt(f, sel.X, at)) == recv
+	}
+	isTuple := func(e ast.Expr, at ast.Node) bool {
+		x := mxLenArg(f, e, at)
+		if x == nil || !mxStringSlice(info, x) {
+			return false
+		}
+		root := mxRootObj(info, mxResolveAt(f, x, at))
+		if root == nil || root == recv {
+			return false
+		}
+		_, isParam := mxPureParam(f, root)
+		return isParam
+	}
+	for _, e := range mxCondEdges(f.Graph()) {
+		if cmp, ok := mxCmpOf(e); ok {
+			if (isKeys(cmp.L, e.Cond) && isTuple(cmp.R, e.Cond)) || (isKeys(cmp.R, e.Cond) && isTuple(cmp.L, e.Cond)) {
+				switch cmp.Op {
+				case token.EQL:
+					match = append(match, e)
+				case token.NEQ:
+					mismatch = append(mismatch, e)
+				default:
+					other++
+				}
+				continue
+			}
+			// err ==/!= nil with err := helper(tuple)
+			var errExpr ast.Expr
+			if isNilIdent(info, cmp.R) {
+				errExpr = cmp.L
+			} else if isNilIdent(info, cmp.L) {
+				errExpr = cmp.R
+			}
+			if errExpr != nil && depth < 2 && (cmp.Op == token.EQL || cmp.Op == token.NEQ) {
+				if call, ok := mxResolveAt(f, errExpr, e.Cond).(*ast.CallExpr); ok {
+					if h := f.CalleeFunc(call); h != nil && h != f && core.Rel(h.Pkg.PkgPath) == "internal/metrics" {
+						if pi, ok := mxArityHelper(c, h, depth+1); ok {
+							arg := mxArgFor(call, h, pi)
+							r := core.RecvExpr(call)
+							okArg := arg != nil && mxStringSlice(info, arg)
+							if okArg {
+								root := mxRootObj(info, mxResolveAt(f, arg, e.Cond))
+								_, isParam := mxPureParam(f, root)
+								okArg = root != nil && root != recv && isParam
+							}
+							if okArg && r != nil && recv != nil && identObj(info, mxResolveAt(f, r, e.Cond)) == recv {
+								c.Analysed(h)
+								if cmp.Op == token.EQL {
+									match = append(match, e)
+								} else {
+									mismatch = append(mismatch, e)
+								}
+							}
+						}
+					}
+				}
+			}
+			if (cmp.Op == token.LSS || cmp.Op == token.GTR || cmp.Op == token.LEQ || cmp.Op == token.GEQ) && (isKeys(cmp.L, e.Cond) || isKeys(cmp.R, e.Cond)) {
+				other++
+			}
+		}
+	}
+	return
+}
+
+// mxArityHelper reports whether h returns a non-nil error whenever the
+// []string parameter it compares with len(<its receiver>.Keys) has another
+// length (every exit reachable without taking a match edge returns non-nil),
+// and which parameter that is.
+func mxArityHelper(c *core.Check, h *core.Func, depth int) (int, bool) {
+	if h.Decl.Recv == nil || h.Type.Results == nil || len(h.Type.Results.List) == 0 {
+		return 0, false
+	}
+	match, mismatch, _ := mxArityEdges(c, h, depth)
+	if len(match)+len(mismatch) == 0 {
+		return 0, false
+	}
+	g := h.Graph()
+	for _, ex := range normalExits(g) {
+		if _, reach := mxReachAvoiding(g, nil, ex.P, match, nil); reach {
+			if ex.Kind != "return" || returnsNil(h.Info(), ex.Ret) {
+				return 0, false
+			}
+		}
+	}
+	// which parameter: the tuple side of the first comparison
+	info := h.Info()
+	all := append(append([]mxEdge{}, match...), mismatch...)
+	if cmp, ok := mxCmpOf(all[0]); ok {
+		for _, side := range []ast.Expr{cmp.L, cmp.R} {
+			if x := mxLenArg(h, side, all[0].Cond); x != nil && mxStringSlice(info, x) {
+				if pi, ok := mxPureParam(h, mxRootObj(info, mxResolveAt(h, x, all[0].Cond))); ok && pi >= 0 {
+					return pi, true
+				}
+			}
+		}
+	}
+	return 0, false
+}
+
+// ---- label-value slice: aliases, copies, loops ----
+
+// mxIsLVCopy reports whether e (after following locals) is a fresh copy of some Metric's LabelValues.
+func mxIsLVCopy(f *core.Func, e ast.Expr, at ast.Node) bool {
+	isLV := lvAliases(f)
+	call, ok := mxResolveAt(f, e, at).(*ast.CallExpr)
+	if !ok {
+		return false
+	}
+	switch f.CalleeID(call) {
+	case "builtin.append":
+		if len(call.Args) == 2 && call.Ellipsis.IsValid() && isLV(call.Args[1]) {
+			first := core.Unparen(call.Args[0])
+			if isNilIdent(f.Info(), first) {
+				return true
+			}
+			if cl, ok := first.(*ast.CompositeLit); ok && len(cl.Elts) == 0 {
+				return true
+			}
+			if cv, ok := first.(*ast.CallExpr); ok && len(cv.Args) == 1 && isNilIdent(f.Info(), cv.Args[0]) {
+				return true // []T(nil)
+			}
+		}
+	case "slices.Clone":
+		return len(call.Args) == 1 && isLV(call.Args[0])
+	}
+	return false
+}
+
+// mxLoop is a loop over the elements of a Metric's label-value slice.
+type mxLoop struct {
+	Stmt  ast.Stmt
+	Body  *ast.BlockStmt
+	Slice ast.Expr     // the expression iterated or indexed
+	Base  types.Object // the metric variable (nil when not a plain identifier)
+	Idx   types.Object // index variable, nil if none
+	Val   types.Object // range value variable, nil if none
+	Alias bool         // Slice shares the metric's backing array (false: a fresh copy)
+	Whole string       // "yes": every element is visited (no reslice, index from 0 to len); "no": a proper part; "?": not recognised
+	f     *core.Func
+}
+
+// mxWholeSlice tells whether e denotes all of a label-value slice: "no" when a
+// reslice with a bound stands between e and the field (or the copy's source).
+func mxWholeSlice(f *core.Func, e ast.Expr, at ast.Node) string {
+	for i := 0; i < 8; i++ {
+		e = mxResolveAt(f, e, at)
+		switch x := e.(type) {
+		case *ast.SliceExpr:
+			if x.Low != nil {
+				if v, ok := mxConstInt(f, x.Low); !ok || v != 0 {
+					return "no"
+				}
+			}
+			if x.High != nil {
+				return "no"
+			}
+			e = x.X
+			continue
+		case *ast.SelectorExpr:
+			return "yes"
+		case *ast.CallExpr:
+			switch f.CalleeID(x) {
+			case "builtin.append":
+				if len(x.Args) == 2 {
+					e = x.Args[1]
+					continue
+				}
+			case "slices.Clone":
+				if len(x.Args) == 1 {
+					e = x.Args[0]
+					continue
+				}
+			}
+		}
+		return "?"
+	}
+	return "?"
+}
+
+// mxLoops finds the range loops over, and the index loops that index, a
+// label-value slice (or a fresh copy of one) in f.
+func mxLoops(f *core.Func) []*mxLoop {
+	info := f.Info()
+	base := lvBases(f)
+	var out []*mxLoop
+	core.InspectNoLit(f.Body, func(n ast.Node) bool {
+		switch s := n.(type) {
+		case *ast.RangeStmt:
+			b, alias := base(s.X)
+			if !alias && !mxIsLVCopy(f, s.X, s) {
+				return true
+			}
+			l := &mxLoop{Stmt: s, Body: s.Body, Slice: s.X, Base: b, Alias: alias, f: f, Whole: mxWholeSlice(f, s.X, s)}
+			if s.Key != nil {
+				if id, ok := s.Key.(*ast.Ident); ok && id.Name != "_" {
+					l.Idx = identObj(info, s.Key)
+				}
+			}
+			if s.Value != nil {
+				if id, ok := s.Value.(*ast.Ident); ok && id.Name != "_" {
+					l.Val = identObj(info, s.Value)
+				}
+			}
+			out = append(out, l)
+		case *ast.ForStmt:
+			as, ok := s.Init.(*ast.AssignStmt)
+			if !ok || len(as.Lhs) != 1 {
+				return true
+			}
+			iv := identObj(info, as.Lhs[0])
+			if iv == nil {
+				return true
+			}
+			var l *mxLoop
+			ast.Inspect(s.Body, func(m ast.Node) bool {
+				if ix, ok := m.(*ast.IndexExpr); ok && l == nil && identObj(info, ix.Index) == iv {
+					if b, alias := base(ix.X); alias {
+						l = &mxLoop{Stmt: s, Body: s.Body, Slice: ix.X, Base: b, Idx: iv, Alias: true, f: f}
+					} else if mxIsLVCopy(f, ix.X, ix) {
+						l = &mxLoop{Stmt: s, Body: s.Body, Slice: ix.X, Idx: iv, f: f}
+					}
+				}
+				return true
+			})
+			if l != nil {
+				// from 0, while i < len(s), i++
+				l.Whole = "?"
+				start, okStart := mxConstInt(f, as.Rhs[0])
+				inc := false
+				if p, ok := s.Post.(*ast.IncDecStmt); ok && p.Tok == token.INC && identObj(info, p.X) == iv {
+					inc = true
+				}
+				if be, ok := core.Unparen(s.Cond).(*ast.BinaryExpr); ok && inc && okStart && len(as.Rhs) == 1 {
+					if oc, ok := (mxCmp{be.X, be.Y, be.Op}).mxOrient(func(e ast.Expr) bool { return identObj(info, e) == iv }); ok && (oc.Op == token.LSS || oc.Op == token.NEQ) {
+						if x := mxLenArg(f, oc.R, s.Cond); x != nil && mxCanon(f, x, s.Cond) == mxCanon(f, l.Slice, s.Cond) {
+							l.Whole = mxWholeSlice(f, l.Slice, s)
+							if start != 0 {
+								l.Whole = "no"
+							}
+						}
+					}
+				}
+				if s.Post == nil && okStart && start != 0 {
+					l.Whole = "no"
+				}
+				out = append(out, l)
+			}
+		}
+		return true
+	})
+	return out
+}
+
+// isElem reports whether e denotes the element visited by the current iteration.
+func (l *mxLoop) isElem(e ast.Expr) bool {
+	f := l.f
+	info := f.Info()
+	e = core.Unparen(e)
+	if o := identObj(info, e); o != nil && l.Val != nil && o == l.Val {
+		return true
+	}
+	if id, ok := e.(*ast.Ident); ok {
+		if v := mxLocalVar(f, id); v != nil {
+			sites := mxDefsOf(f)[v]
+			if len(sites) == 1 && !sites[0].opaque && sites[0].n == 1 && sites[0].rhs != nil &&
+				l.Body.Pos() <= sites[0].node.Pos() && sites[0].node.End() <= l.Body.End() {
+				return l.isElem(sites[0].rhs)
+			}
+		}
+		return false
+	}
+	if ix, ok := e.(*ast.IndexExpr); ok && l.Idx != nil && identObj(info, ix.Index) == l.Idx {
+		return mxCanon(f, ix.X, nil) == mxCanon(f, l.Slice, nil)
+	}
+	return false
+}
+
+// elemOf returns X when e is X.<field> (field of LabelValue) and X is the current element.
+func (l *mxLoop) elemField(e ast.Expr, field string, at ast.Node) bool {
+	sel, ok := mxIsField(l.f.Info(), mxResolveAt(l.f, e, at), "metrics.LabelValue", field)
+	return ok && l.isElem(sel.X)
+}
+
+// ---- lookups in labelValuesMap ----
+
+// mxLookup is one lookup of a tuple in a metric's labelValuesMap inside a function.
+type mxLookup struct {
+	Expr  ast.Expr     // the index expression or the call of a lookup function
+	Val   types.Object // variable receiving the *LabelValue (nil if used in place)
+	Ok    types.Object // variable receiving the comma-ok flag (nil if none)
+	Def   ast.Node     // the statement binding Val/Ok
+	Tuple ast.Expr     // the tuple looked up
+}
+
+type mxLookupFnInfo struct {
+	param int  // position of the parameter looked up
+	byKey bool // the parameter is the already built key (a string), not the tuple
+	ok    bool
+}
+
+var mxLookupFnCache = map[*core.Func]mxLookupFnInfo{}
+
+// mxLookupFn reports whether h looks up its []string parameter (or a key
+// passed as a string parameter) in the receiver's labelValuesMap and returns
+// the *LabelValue found (nil or the zero value if absent) as its first result.
+func mxLookupFn(h *core.Func) mxLookupFnInfo {
+	if v, ok := mxLookupFnCache[h]; ok {
+		return v
+	}
+	res := mxLookupFnInfo{}
+	mxLookupFnCache[h] = res // guards against recursion through delegating helpers
+	defer func() { mxLookupFnCache[h] = res }()
+	if h.Lit != nil || core.Rel(h.Pkg.PkgPath) != "internal/metrics" || h.Type.Results == nil || len(h.Type.Results.List) == 0 {
+		return res
+	}
+	info := h.Info()
+	if !strings.HasSuffix(typeStr(info.TypeOf(h.Type.Results.List[0].Type)), "metrics.LabelValue") {
+		return res
+	}
+	for _, lk := range mxLookups(h, true) {
+		pi, byKey, okP := 0, false, false
+		if lk.Tuple != nil {
+			pi, okP = mxPureParam(h, identObj(info, mxResolve(h, lk.Tuple)))
+		} else if ix, isIx := lk.Expr.(*ast.IndexExpr); isIx {
+			pi, okP = mxPureParam(h, identObj(info, mxResolve(h, ix.Index)))
+			byKey = true
+		}
+		if !okP || pi < 0 {
+			continue
+		}
+		// every returned value is the looked-up one or nil
+		okRet := true
+		for _, ex := range normalExits(h.Graph()) {
+			if ex.Kind != "return" || len(ex.Ret.Results) == 0 {
+				okRet = false
+				continue
+			}
+			r := core.Unparen(ex.Ret.Results[0])
+			if isNilIdent(info, r) || r == lk.Expr || (lk.Val != nil && identObj(info, r) == lk.Val) {
+				continue
+			}
+			okRet = false
+		}
+		if okRet {
+			res = mxLookupFnInfo{param: pi, byKey: byKey, ok: true}
+			return res
+		}
+	}
+	return res
+}
+
+// mxKeyTuple returns the tuple a map key was built from: the argument of
+// buildLabelValueKey once locals are followed; nil if the key is something else.
+func mxKeyTuple(f *core.Func, key ast.Expr, at ast.Node) ast.Expr {
+	if call, ok := mxResolveAt(f, key, at).(*ast.CallExpr); ok && f.CalleeID(call) == buildKey && len(call.Args) == 1 {
+		return call.Args[0]
+	}
+	return nil
+}
+
+// mxLookups lists the lookups in f: reads of X.labelValuesMap[k] and, when
+// calls is set, calls of lookup functions.
+func mxLookups(f *core.Func, calls bool) []mxLookup {
+	info := f.Info()
+	var out []mxLookup
+	written := map[ast.Expr]bool{}
+	ast.Inspect(f.Body, func(n ast.Node) bool {
+		if as, ok := n.(*ast.AssignStmt); ok {
+			for _, l := range as.Lhs {
+				written[core.Unparen(l)] = true
+			}
+		}
+		return true
+	})
+	bind := func(lk *mxLookup) {
+		ast.Inspect(f.Body, func(n ast.Node) bool {
+			switch x := n.(type) {
+			case *ast.AssignStmt:
+				if len(x.Rhs) == 1 && core.Unparen(x.Rhs[0]) == lk.Expr {
+					lk.Def = x
+					lk.Val = identObj(info, x.Lhs[0])
+					if len(x.Lhs) == 2 {
+						lk.Ok = identObj(info, x.Lhs[1])
+					}
+				}
+			case *ast.ValueSpec:
+				if len(x.Values) == 1 && core.Unparen(x.Values[0]) == lk.Expr {
+					lk.Def = x
+					lk.Val = info.Defs[x.Names[0]]
+					if len(x.Names) == 2 {
+						lk.Ok = info.Defs[x.Names[1]]
+					}
+				}
+			}
+			return true
+		})
+	}
+	core.InspectNoLit(f.Body, func(n ast.Node) bool {
+		switch x := n.(type) {
+		case *ast.IndexExpr:
+			if _, ok := mxIsField(info, x.X, "metrics.Metric", "labelValuesMap"); ok && !written[x] {
+				lk := mxLookup{Expr: x, Tuple: mxKeyTuple(f, x.Index, x)}
+				bind(&lk)
+				out = append(out, lk)
+			}
+		case *ast.CallExpr:
+			if !calls {
+				return true
+			}
+			if h := f.CalleeFunc(x); h != nil && h != f {
+				if lf := mxLookupFn(h); lf.ok {
+					lk := mxLookup{Expr: x}
+					if arg := mxArgFor(x, h, lf.param); arg != nil {
+						if lf.byKey {
+							lk.Tuple = mxKeyTuple(f, arg, x)
+						} else {
+							lk.Tuple = arg
+						}
+					}
+					bind(&lk)
+					out = append(out, lk)
+				}
+			}
+		}
+		return true
+	})
+	return out
+}
+
+// mxUnclassifiedLookups counts the calls in f of internal/metrics functions
+// that return a *LabelValue but are not recognised lookup functions: when the
+// rules find no lookup to reason about, such a call means "not understood"
+// rather than "absent".
+func mxUnclassifiedLookups(f *core.Func) int {
+	n := 0
+	core.InspectNoLit(f.Body, func(x ast.Node) bool {
+		call, ok := x.(*ast.CallExpr)
+		if !ok {
+			return true
+		}
+		h := f.CalleeFunc(call)
+		if h == nil || h == f || core.Rel(h.Pkg.PkgPath) != "internal/metrics" || h.Type.Results == nil || len(h.Type.Results.List) == 0 {
+			return true
+		}
+		if strings.HasSuffix(typeStr(h.Info().TypeOf(h.Type.Results.List[0].Type)), "metrics.LabelValue") && !mxLookupFn(h).ok {
+			n++
+		}
+		return true
+	})
+	return n
+}
+
+// mxLookupEdges classifies the condition edges of f that test the outcome of
+// lookup lk: present edges assert that the tuple was found, absent edges that it was not.
+func mxLookupEdges(f *core.Func, lk mxLookup) (present, absent []mxEdge) {
+	info := f.Info()
+	bound := func(obj types.Object, at ast.Node) bool {
+		if obj == nil || lk.Def == nil {
+			return false
+		}
+		sites := mxReaching(f, obj, at)
+		return len(sites) == 1 && sites[0].node == lk.Def
+	}
+	isVal := func(e ast.Expr, at ast.Node) bool {
+		e = core.Unparen(e)
+		if e == lk.Expr {
+			return true
+		}
+		o := identObj(info, e)
+		return o != nil && o == lk.Val && bound(o, at)
+	}
+	for _, e := range mxCondEdges(f.Graph()) {
+		if id, ok := core.Unparen(e.Cond).(*ast.Ident); ok {
+			if o := identObj(info, id); o != nil && o == lk.Ok && bound(o, e.Cond) {
+				if e.True {
+					present = append(present, e)
+				} else {
+					absent = append(absent, e)
+				}
+			}
+			continue
+		}
+		cmp, ok := mxCmpOf(e)
+		if !ok || (cmp.Op != token.EQL && cmp.Op != token.NEQ) {
+			continue
+		}
+		var other ast.Expr
+		if isNilIdent(info, cmp.R) {
+			other = cmp.L
+		} else if isNilIdent(info, cmp.L) {
+			other = cmp.R
+		}
+		if other == nil || !isVal(other, e.Cond) {
+			continue
+		}
+		if cmp.Op == token.NEQ {
+			present = append(present, e)
+		} else {
+			absent = append(absent, e)
+		}
+	}
+	return
+}
+
+// mxAppendsLabelValues reports whether f itself appends an element to a Metric's LabelValues.
+func mxAppendsLabelValues(f *core.Func) bool { return len(mxAppendStmts(f)) > 0 }
+
+// mxAppendStmts lists the statements `X.LabelValues = append(X.LabelValues, v…)` of f.
+func mxAppendStmts(f *core.Func) []*ast.AssignStmt {
+	isLV := lvAliases(f)
+	var out []*ast.AssignStmt
+	core.InspectNoLit(f.Body, func(n ast.Node) bool {
+		if as, ok := n.(*ast.AssignStmt); ok && len(as.Lhs) == 1 && len(as.Rhs) == 1 && isLV(as.Lhs[0]) {
+			if call, ok := core.Unparen(as.Rhs[0]).(*ast.CallExpr); ok && f.CalleeID(call) == "builtin.append" && len(call.Args) >= 2 {
+				if _, isSlice := core.Unparen(call.Args[0]).(*ast.SliceExpr); !isSlice && isLV(call.Args[0]) {
+					out = append(out, as)
+				}
+			}
+		}
+		return true
+	})
+	return out
+}
+
+// mxMapWriters is the set of declared functions of internal/metrics that
+// (transitively) store into / delete from a metric's labelValuesMap.
+func mxMapWriters(c *core.Check, del bool) map[*core.Func]bool {
+	return c.Prog.Reaching(func(f *core.Func) bool {
+		if core.Rel(f.Pkg.PkgPath) != "internal/metrics" {
+			return false
+		}
+		return len(mxMapWrites(f, del)) > 0
+	})
+}
+
+// mxMapWrites lists the stores into (del=false) or deletes from (del=true) labelValuesMap in f itself.
+func mxMapWrites(f *core.Func, del bool) []ast.Node {
+	info := f.Info()
+	var out []ast.Node
+	core.InspectNoLit(f.Body, func(n ast.Node) bool {
+		switch x := n.(type) {
+		case *ast.AssignStmt:
+			if !del {
+				for _, l := range x.Lhs {
+					if ix, ok := core.Unparen(l).(*ast.IndexExpr); ok {
+						if _, ok := mxIsField(info, ix.X, "metrics.Metric", "labelValuesMap"); ok {
+							out = append(out, x)
+						}
+					}
+				}
+			}
+		case *ast.CallExpr:
+			if del && f.CalleeID(x) == "builtin.delete" && len(x.Args) == 2 {
+				if _, ok := mxIsField(info, x.Args[0], "metrics.Metric", "labelValuesMap"); ok {
+					out = append(out, x)
+				}
+			}
+		}
+		return true
+	})
+	return out
+}
+
+// mxPoints maps nodes to their CFG points.
+func mxPoints(g *core.Graph, ns []ast.Node) []core.Point {
+	var out []core.Point
+	for _, n := range ns {
+		if p, ok := g.PointOf(n); ok {
+			out = append(out, p)
+		}
+	}
+	return out
+}
+
+// mxPairedEitherOrder is pairedEvents accepting either order of the two
+// events (the two updates are independent statements), and at most one pair per path.
+func mxPairedEitherOrder(g *core.Graph, as, bs []core.Point) (string, []string, bool) {
+	if len(as) == 0 || len(bs) == 0 {
+		return fmt.Sprintf("%d slice updates, %d map updates", len(as), len(bs)), nil, false
+	}
+	msg, tr, ok := pairedEvents(g, as, bs)
+	if !ok {
+		if _, _, ok2 := pairedEvents(g, bs, as); ok2 {
+			msg, tr, ok = "", nil, true
+		}
+	}
+	if !ok {
+		return msg, tr, false
+	}
+	ctr := g.Count(nil, as, nil)
+	for _, ex := range normalExits(g) {
+		if cnt, reach := ctr.At(ex.P); reach && cnt.Max > 1 {
+			return "the slice is updated more than once on a path", nil, false
+		}
+	}
+	return "", nil, true
+}
+
+// mxAlwaysNil reports whether every return of h returns the literal nil as its last result.
+func mxAlwaysNil(h *core.Func) bool {
+	for _, ex := range normalExits(h.Graph()) {
+		if ex.Kind != "return" || !returnsNil(h.Info(), ex.Ret) {
+			return false
+		}
+	}
+	return true
+}
+
+// mxConstInt evaluates e (after following locals) as an integer constant.
+func mxConstInt(f *core.Func, e ast.Expr) (int64, bool) {
+	return constInt(f.Info(), core.Unparen(e))
 }
